@@ -26,7 +26,17 @@ class Untranslatable(Exception):
 
 
 class _NeedMonad(Exception):
-    pass
+    def __init__(self, why='', level=0):
+        Exception.__init__(self, why)
+        self.level = level      # 0 = the function, k = the k-th enclosing loop (1 = outermost)
+
+
+class _Widen(Exception):
+    """a loop-carried local needs a wider type than it has at loop entry"""
+
+    def __init__(self, name, ty):
+        Exception.__init__(self, name)
+        self.name, self.ty = name, ty
 
 
 class _CanRaise(Exception):
@@ -34,6 +44,10 @@ class _CanRaise(Exception):
 
 
 class _PhiFail(Exception):
+    pass
+
+
+class _LaterOperandRaises(Exception):
     pass
 
 
@@ -58,6 +72,51 @@ def TUPLE(*ts):
 
 
 UNION_INT_STR = ('union', INT, STR)
+BYTEARRAY = ('bytearray',)    # bytes / bytearray: a sequence of ints in range(256) -> List Int
+BUFFER = ('buffer',)          # segno's Buffer (a bytearray of bits with extend / append_bits / toints) -> List Int
+FLOAT = 'float'               # exact rational model of the float sub-language -> Py.Q
+
+
+def ITER(t):
+    return ('iter', t)
+
+
+def OBJ(cls, **fields):
+    """an object (instance of `cls`) the function only reads: attribute / opaque-parameter name of a translated method
+    -> type; every field becomes a parameter of the translation (`__len__` stands for `len(obj)`)"""
+    return ('obj', tuple(fields.items()), cls)
+
+
+EMPTYLIST = ('list', None)      # the display `[]` before its element type is known
+
+
+class NamedTupleType(tuple):
+    """a tuple type whose components have names (collections.namedtuple): `x.name` is a projection"""
+    fields = ()
+
+
+def NT(**fields):
+    t = NamedTupleType(('tuple',) + tuple(fields.values()))
+    t.fields = tuple(fields)
+    return t
+
+
+def RAISES(t):
+    """type of an opaque read that can raise: the parameter of the translation is an `M τ`"""
+    return ('raises', t)
+
+
+def is_seq(t):
+    return t in (BYTEARRAY, BUFFER) or (isinstance(t, tuple) and t[0] == 'list')
+
+
+def elem_ty(t):
+    return INT if t in (BYTEARRAY, BUFFER) else t[1]
+
+
+def is_bytes_ty(t):
+    """types whose integer leaves are bytes by construction"""
+    return t in (BYTEARRAY, BUFFER) or (isinstance(t, tuple) and t[0] in ('list', 'opt', 'iter') and is_bytes_ty(t[1]))
 
 
 class CONST:
@@ -76,8 +135,18 @@ def lean_ty(t):
         return 'String'
     if t == NONE:
         return 'Unit'
+    if t == FLOAT:
+        return 'Py.Q'
+    if t in (BYTEARRAY, BUFFER):
+        return '(List Int)'
+    if t[0] == 'iter':
+        return f'(List {lean_ty(t[1])})'
+    if t[0] == 'raises':
+        return f'(M {lean_ty(t[1])})'
     if t[0] == 'opt':
         return f'(Option {lean_ty(t[1])})'
+    if t == EMPTYLIST:
+        return '(List Int)'
     if t[0] == 'list':
         return f'(List {lean_ty(t[1])})'
     if t[0] == 'dict':
@@ -93,14 +162,47 @@ _NC = object()   # "no compile-time constant"
 
 
 class Val:
-    """a pure Lean term with its Python-level type (and its value when it is a compile-time constant)"""
+    """a pure Lean term with its Python-level type (and its value when it is a compile-time constant)
 
-    def __init__(self, term, ty, const=_NC):
+    byte  : every integer leaf of the value is known to be in range(256)
+    elts  : the component values of a tuple / list display
+    view  : (base name, index term) — the value is row `index` of the list of rows `base`, read and written through
+            (`row = matrix[i]` where the matrix is updated in place somewhere in the function)
+    bound : (base name, method) — a bound method of a local sequence (`write = buff.extend`)
+    fields: the fields of an object parameter (name -> Val)"""
+
+    def __init__(self, term, ty, const=_NC, byte=False, elts=None, view=None, bound=None, fields=None, nonneg=False):
         self.term, self.ty, self.const = term, ty, const
+        self.byte = byte or is_bytes_ty(ty)
+        self.nonneg = nonneg or self.byte or (ty == 'int' and const is not _NC and isinstance(const, int) and const >= 0)
+        # nonneg: an int known to be ≥ 0 (loop variables of `range(n)` / `range(k, n)` with a literal k ≥ 0, bytes, literals)
+        self.elts, self.view, self.bound, self.fields = elts, view, bound, fields
 
     @property
     def is_const(self):
         return self.const is not _NC
+
+    def renamed(self, term):
+        return Val(term, self.ty, byte=self.byte, elts=self.elts, nonneg=self.nonneg)
+
+
+class Let:
+    """a pure `let` among the hoisted computations of a Ctx"""
+
+    def __init__(self, term):
+        self.term = term
+
+
+def all_bytes(v):
+    if isinstance(v, bool):
+        return False
+    if isinstance(v, int):
+        return 0 <= v < 256
+    if isinstance(v, (bytes, bytearray)):
+        return True
+    if isinstance(v, (tuple, list)):
+        return all(all_bytes(x) for x in v)
+    return False
 
 
 LEAN_KEYWORDS = {'at', 'from', 'end', 'open', 'fun', 'do', 'then', 'else', 'if', 'let', 'have', 'show', 'match', 'with', 'in', 'by',
@@ -147,16 +249,17 @@ def str_lit(s):
 EXC = {'ValueError': 'valueError', 'KeyError': 'keyError', 'IndexError': 'indexError', 'TypeError': 'typeError',
        'AttributeError': 'attributeError', 'AssertionError': 'assertionError', 'DataOverflowError': 'dataOverflow',
        'UnicodeError': 'unicodeError', 'UnicodeEncodeError': 'unicodeError', 'UnicodeDecodeError': 'unicodeError',
-       'LookupError': 'lookupError', 'ZeroDivisionError': 'zeroDivisionError'}
+       'LookupError': 'lookupError', 'ZeroDivisionError': 'zeroDivisionError', 'StopIteration': 'stopIteration'}
 ALL_EXC = ['valueError', 'dataOverflow', 'indexError', 'keyError', 'typeError', 'attributeError', 'assertionError',
-           'unicodeError', 'lookupError', 'zeroDivisionError']
+           'unicodeError', 'lookupError', 'zeroDivisionError', 'stopIteration']
 # what an `except X` clause catches (X and its subclasses among the modelled classes)
 CATCHES = {'Exception': ALL_EXC, 'BaseException': ALL_EXC,
            'ValueError': ['valueError', 'dataOverflow', 'unicodeError'], 'DataOverflowError': ['dataOverflow'],
            'UnicodeError': ['unicodeError'], 'LookupError': ['lookupError', 'keyError', 'indexError'],
            'KeyError': ['keyError'], 'IndexError': ['indexError'], 'TypeError': ['typeError'],
            'AttributeError': ['attributeError'], 'AssertionError': ['assertionError'],
-           'ArithmeticError': ['zeroDivisionError'], 'ZeroDivisionError': ['zeroDivisionError']}
+           'ArithmeticError': ['zeroDivisionError'], 'ZeroDivisionError': ['zeroDivisionError'],
+           'StopIteration': ['stopIteration']}
 
 
 def err(name):
@@ -169,7 +272,7 @@ def ok(term):
 
 def const_err(m):
     """name of the exception if the monadic term `m` is a constant `Except.error`, else None"""
-    if m.startswith('(Except.error PyExc.') and m.endswith(')') and m.count('(') == 1:
+    if isinstance(m, str) and m.startswith('(Except.error PyExc.') and m.endswith(')') and m.count('(') == 1:
         return m[len('(Except.error PyExc.'):-1]
     return None
 
@@ -191,10 +294,26 @@ def join_types(a, b):
     """least common type of two branches (None joins T to Optional[T]); None if there is none"""
     if a == b:
         return a
+    if a == EMPTYLIST and is_seq(b):
+        return b
+    if b == EMPTYLIST and is_seq(a):
+        return a
     if a == NONE and b in (INT, STR):
         return OPT(b)
     if b == NONE and a in (INT, STR):
         return OPT(a)
+    if a == NONE and (b == BOOL or is_seq(b)):
+        return OPT(b)
+    if b == NONE and (a == BOOL or is_seq(a)):
+        return OPT(a)
+    for x, y in ((a, b), (b, a)):
+        if isinstance(x, tuple) and x[0] == 'tuple' and isinstance(y, tuple) and y[0] in ('tuple', 'list'):
+            # homogeneous tuples of different lengths / a tuple and a list: a list
+            ex = tuple_elem_ty(x)
+            ey = tuple_elem_ty(y) if y[0] == 'tuple' else y[1]
+            if ex is not None and ey is not None and (y[0] == 'list' or len(x) != len(y)):
+                t = join_types(ex, ey)
+                return None if t is None else LIST(t)
     if a == NONE and b[0] == 'opt':
         return b
     if b == NONE and a[0] == 'opt':
@@ -212,6 +331,18 @@ def join_types(a, b):
     if {a, b} == {INT, STR}:
         return UNION_INT_STR
     return None
+
+
+def tuple_elem_ty(t):
+    """the common type of the components of a tuple type (None if there is none)"""
+    if len(t) < 2:
+        return None
+    e = t[1]
+    for u in t[2:]:
+        e = join_types(e, u)
+        if e is None:
+            return None
+    return e
 
 
 # ------------------------------------------------------------------------------------ constants of the module
@@ -233,6 +364,8 @@ class Tables:
             return NONE
         if isinstance(v, (bytes, bytearray)):
             return LIST(INT)
+        if isinstance(v, tuple) and hasattr(v, '_fields'):
+            return NT(**{f: self.type_of(x, where) for f, x in zip(v._fields, v)})
         if isinstance(v, (tuple, list)):
             if not v:
                 return LIST(INT)
@@ -274,6 +407,14 @@ class Tables:
             if v is not None:
                 raise Untranslatable(f'value {v!r} is not None')
             return '()'
+        if t[0] == 'raises':
+            if isinstance(v, tuple) and len(v) == 2 and v[0] == 'raise':
+                return err(EXC[v[1]])
+            return ok(self.literal(v, t[1]))
+        if t in (BYTEARRAY, BUFFER):
+            if hasattr(v, 'getbits'):
+                v = v.getbits()
+            return '[' + ', '.join(self.literal(x, INT) for x in v) + ']'
         if t[0] == 'opt':
             return 'none' if v is None else f'(some {self.literal(v, t[1])})'
         if t[0] == 'list':
@@ -293,38 +434,68 @@ class Tables:
     def table(self, qual, v):
         """register constant `qual` (e.g. consts.FORMAT_INFO) -> Val referring to the dumped table"""
         name = 'T_' + ''.join(ch if ch.isalnum() or ch == '_' else '_' for ch in qual).strip('_')
+        partial = False
+        note = ''
+        if isinstance(v, dict) and any(isinstance(k, str) for k in v) and any(not isinstance(k, str) for k in v):
+            # a dict with str keys AND int / None keys (consts.ECC): only the entries with non-str keys are dumped; the
+            # table may then only be subscripted with an int / None key (which can never be equal to a str key)
+            v = {k: x for k, x in v.items() if not isinstance(k, str)}
+            name += '_intkeys'
+            partial = True
+            note = '; ONLY the entries whose key is not a str'
         if name not in self.defs:
             t = self.type_of(v, qual)
-            self.defs[name] = (t, f'/-- `{qual}` (read from the imported module, iteration order kept) -/\n'
+            self.defs[name] = (t, f'/-- `{qual}` (read from the imported module, iteration order kept{note}) -/\n'
                                   f'def {name} : {lean_ty(t)} :=\n  {self.literal(v, t)}')
             self.order.append(name)
-        return Val(name, self.defs[name][0], const=v)
+        r = Val(name, self.defs[name][0], const=v, byte=all_bytes(v))
+        r.partial = partial
+        return r
 
 
 # ------------------------------------------------------------------------------------ the translator: expressions
 class Ctx:
-    """impure sub-expressions hoisted in evaluation order: (name, monadic term, type)"""
+    """impure sub-expressions hoisted in evaluation order: (name, monadic term | Let, type); `updates` are the locals an
+    expression rebinds as a side effect (`next(it)`, `xs.pop()`, `buff.extend(…)`)"""
 
-    def __init__(self):
+    def __init__(self, parent=None, conditional=False):
         self.binds = []
+        self.updates = {}
+        self.parent = parent
+        self.conditional = conditional      # evaluated only on some paths: in-place updates are refused here
+
+    def lookup(self, name):
+        c = self
+        while c is not None:
+            if name in c.updates:
+                return c.updates[name]
+            c = c.parent
+        return None
 
 
 def BIND(name, m, ty, body):
     return f'(Py.bind ({m} : M {lean_ty(ty)}) (fun {name} =>\n{ind(body)}))'
 
 
+def BIND_RAW(name, m, lean_type, body):
+    return f'(Py.bind ({m} : M {lean_type}) (fun {name} =>\n{ind(body)}))'
+
+
 def seal(binds, final):
     """the hoisted computations `binds` around the monadic term `final`"""
     for k, (name, m, ty) in enumerate(binds):
-        if const_err(m):            # a computation that always raises: what follows is dead code (exact)
+        if not isinstance(m, Let) and const_err(m):   # a computation that always raises: what follows is dead code (exact)
             binds, final = binds[:k], m
             break
-    if binds and final == ok(binds[-1][0]):
+    if binds and not isinstance(binds[-1][1], Let) and final == ok(binds[-1][0]):
         # `match m with | error e => error e | ok t => ok t` is m (right identity of the exception monad)
         name, m, ty = binds[-1]
         binds, final = binds[:-1], f'({m} : M {lean_ty(ty)})'
     for name, m, ty in reversed(binds):
-        final = BIND(name, m, ty, final)
+        if isinstance(m, Let):
+            final = f'(let {name} : {lean_ty(ty)} := {m.term};\n{final})'
+        else:
+            final = BIND(name, m, ty, final)
     return final
 
 
@@ -332,14 +503,122 @@ class FnTranslator:
     def __init__(self, spec, module, fn_node, registry, tables, module_aliases):
         self.spec, self.module, self.fn, self.registry, self.tables = spec, module, fn_node, registry, tables
         self.module_aliases = module_aliases   # name in the source -> imported module object (e.g. 'consts')
-        self.monadic = False
+        self.monadic = False                   # the function as a whole can raise
+        self.loops = []                        # enclosing loops being translated: dict(monadic, names, types, form, …)
         self.noraise = False
         self.phi_depth = 0
-        self.loop_depth = 0
         self.counter = {}
-        self.ret_ty = spec['ret']
+        self.py_ret_ty = spec['ret']
+        self.mutates = list(spec.get('mutates', []))   # parameters updated in place: returned in front of the result
         self.opaque = spec.get('opaque', {})   # source text of an expression -> (parameter name, type)
+        self.fuel = spec.get('fuel', {})       # source text of a `while` test -> source text of the declared fuel
         self.size = 0
+        self.prepass()
+        mt = [t for n, t in list(spec.get('closure', {}).items()) + list(spec['params'].items()) if n in self.mutates]
+        if len(mt) != len(self.mutates):
+            raise Untranslatable('`mutates` names something that is not a parameter')
+        self.ret_ty = self.py_ret_ty if not mt else (TUPLE(*mt) if self.py_ret_ty == NONE and len(mt) > 1 else
+                                                     mt[0] if self.py_ret_ty == NONE else TUPLE(*(mt + [self.py_ret_ty])))
+
+    # ------------------------------------------------------------ static pre-pass over the function body
+    MUTATORS = ('append', 'extend', 'pop', 'append_bits', 'insert', 'remove', 'clear', 'sort', 'reverse')
+
+    def own_nodes(self, stmts):
+        """all AST nodes of `stmts` except the bodies of nested functions / lambdas"""
+        stack = list(stmts)
+        while stack:
+            n = stack.pop()
+            yield n
+            for c in ast.iter_child_nodes(n):
+                if not isinstance(c, (ast.FunctionDef, ast.Lambda, ast.AsyncFunctionDef, ast.ClassDef)):
+                    stack.append(c)
+
+    @staticmethod
+    def root_name(e):
+        while isinstance(e, ast.Subscript):
+            e = e.value
+        return e.id if isinstance(e, ast.Name) else None
+
+    def prepass(self):
+        """local names; which names are (possibly) aliases of which sequences; which names are updated in place"""
+        body = self.fn.body
+        self.local_names = {a.arg for a in self.fn.args.posonlyargs + self.fn.args.args + self.fn.args.kwonlyargs}
+        links = {}        # name -> names it may be an alias of (`x = y[i]`, `x = y`, `x = y.method`)
+        for n in self.own_nodes(body):
+            if isinstance(n, (ast.Assign, ast.AugAssign, ast.AnnAssign, ast.For)):
+                targets = n.targets if isinstance(n, ast.Assign) else [n.target]
+                for t in targets:
+                    for x in ([t] if isinstance(t, ast.Name) else t.elts if isinstance(t, (ast.Tuple, ast.List)) else []):
+                        if isinstance(x, ast.Name):
+                            self.local_names.add(x.id)
+            if isinstance(n, ast.Assign) and len(n.targets) == 1 and isinstance(n.targets[0], ast.Name):
+                v = n.value
+                base = None
+                if isinstance(v, ast.Subscript) and not isinstance(v.slice, ast.Slice):
+                    base = self.root_name(v)
+                elif isinstance(v, ast.Name):
+                    base = v.id
+                elif isinstance(v, ast.Attribute) and isinstance(v.value, ast.Name):
+                    base = v.value.id
+                if base is not None:
+                    links.setdefault(n.targets[0].id, set()).add(base)
+            if isinstance(n, ast.FunctionDef):
+                self.local_names.add(n.name)
+        self.links = links
+        self.iter_names = set()     # locals that are (possibly) iterators: advanced by the calls that consume them
+        for n in self.own_nodes(body):
+            if isinstance(n, ast.Assign) and len(n.targets) == 1 and isinstance(n.targets[0], ast.Name):
+                v = n.value
+                if isinstance(v, ast.GeneratorExp) or (isinstance(v, ast.Call) and (
+                        (isinstance(v.func, ast.Name) and v.func.id in ('iter', 'map', 'zip', 'enumerate', 'reversed', 'chain', 'islice',
+                                                                         'zip_longest', 'filter'))
+                        or (isinstance(v.func, ast.Attribute) and v.func.attr in ('toints', 'from_iterable', 'items', 'values', 'keys')))):
+                    self.iter_names.add(n.targets[0].id)
+        self.inplace = self.close(self.direct_updates(body, consumers=False))
+
+    def close(self, names):
+        """`names` and everything they may be aliases of (or that may alias them)"""
+        names = set(names)
+        changed = True
+        while changed:
+            changed = False
+            for x, bases in self.links.items():
+                if x in names and not bases <= names:
+                    names |= bases
+                    changed = True
+                if bases & names and x not in names:
+                    names.add(x)
+                    changed = True
+        return names
+
+    def direct_updates(self, stmts, consumers=True):
+        """names whose sequence value is updated in place by `stmts` (stores, mutating methods, `next`); with `consumers`
+        also the names passed to calls that would advance them if they are iterators (for the loop state only)"""
+        names = set()
+        for n in self.own_nodes(stmts):
+            if isinstance(n, (ast.Assign, ast.AugAssign, ast.Delete)):
+                targets = n.targets if isinstance(n, (ast.Assign, ast.Delete)) else [n.target]
+                for t in targets:
+                    for x in ([t] if not isinstance(t, (ast.Tuple, ast.List)) else t.elts):
+                        if isinstance(x, ast.Subscript) and self.root_name(x):
+                            names.add(self.root_name(x))
+            if isinstance(n, ast.Call):
+                f = n.func
+                if isinstance(f, ast.Attribute) and f.attr in self.MUTATORS and self.root_name(f.value):
+                    names.add(self.root_name(f.value))
+                if isinstance(f, ast.Name) and n.args and isinstance(n.args[0], ast.Name) and (f.id in ('next', 'islice') or (
+                        consumers and n.args[0].id in self.iter_names
+                        and f.id in ('list', 'tuple', 'bytearray', 'bytes', 'sum', 'min', 'max', 'any', 'all', 'sorted', 'set',
+                                     'dict', 'enumerate', 'zip', 'map', 'chain'))):
+                    names.add(n.args[0].id)         # (an iterator would be advanced / consumed)
+                if isinstance(f, ast.Name) and f.id in self.links:
+                    names.add(f.id)         # call of a bound method (`write = buff.extend; write(…)`)
+                if isinstance(f, ast.Name) and f.id in self.registry and self.registry[f.id].get('mutates'):
+                    ent = self.registry[f.id]
+                    for (p, _), a in zip(ent['params'], n.args):
+                        if p in ent['mutates'] and isinstance(a, ast.Name):
+                            names.add(a.id)
+        return names
 
     # ------------------------------------------------------------ helpers
     def fresh(self, base):
@@ -347,28 +626,48 @@ class FnTranslator:
         self.counter[base] = k
         return f"{lean_name(base)}'{k}"
 
+    def cur_monadic(self):
+        return self.loops[-1]['monadic'] if self.loops else self.monadic
+
     def need_monad(self, why):
         if self.noraise:
             raise _CanRaise(why)
         if self.phi_depth:
             raise _PhiFail(why)
-        if self.loop_depth:
-            raise Untranslatable(f'{why}: can raise inside a loop body')
-        if not self.monadic:
-            raise _NeedMonad(why)
+        if not self.cur_monadic():
+            raise _NeedMonad(why, len(self.loops))
 
-    def bind(self, ctx, mterm, ty):
+    def let_bind(self, ctx, term, ty, base='v', **attrs):
+        """hoist a pure computation (so that its term is not duplicated)"""
+        name = self.fresh(base)
+        ctx.binds.append((name, Let(term), ty))
+        return Val(name, ty, **attrs)
+
+    def lookup(self, name, env, ctx):
+        v = ctx.lookup(name) if ctx is not None else None
+        return v if v is not None else env.get(name)
+
+    @staticmethod
+    def apply(env, ctx):
+        return {**env, **ctx.updates} if ctx.updates else env
+
+    @staticmethod
+    def no_updates(sub):
+        if sub.updates:
+            raise Untranslatable('an in-place update inside a conditionally evaluated expression')
+
+    def bind(self, ctx, mterm, ty, **attrs):
         """hoist a raising computation; returns the Val of its result"""
         self.need_monad(mterm[:40])
         name = self.fresh('t')
         ctx.binds.append((name, mterm, ty))
-        return Val(name, ty)
+        return Val(name, ty, **attrs)
 
     def const_val(self, qual, v):
         if isinstance(v, bool):
             return Val('true' if v else 'false', BOOL, const=v)
         if isinstance(v, int):
-            return Val(int_lit(v), INT, const=v)
+            return Val(int_lit(v), INT, const=v, byte=0 <= v < 256)
         if isinstance(v, str):
             return Val(str_lit(v), STR, const=v)
         if v is None:
@@ -377,9 +676,40 @@ class FnTranslator:
             return self.tables.table(qual, v)
         raise Untranslatable(f'{qual}: constant of type {type(v).__name__}')
 
+    def components(self, v):
+        """the components of a tuple-typed value"""
+        n = len(v.ty) - 1
+        if v.elts is not None and len(v.elts) == n:
+            return v.elts
+        return [Val(proj(v.term, i, n), v.ty[1 + i], byte=v.byte) for i in range(n)]
+
+    def to_list(self, v, deep=True):
+        """a homogeneous tuple read as a sequence (iteration, dynamic index, slice, extend); with `deep`, components
+        that are homogeneous tuples of ≥ 3 scalars become lists as well"""
+        if is_seq(v.ty):
+            return v
+        if not (isinstance(v.ty, tuple) and v.ty[0] == 'tuple'):
+            raise Untranslatable(f'a {v.ty} where a sequence is expected')
+        comps = self.components(v)
+        if deep and all(isinstance(c.ty, tuple) and c.ty[0] == 'tuple' and len(c.ty) >= 4 and tuple_elem_ty(c.ty) in (INT, BOOL)
+                        for c in comps):
+            comps = [self.to_list(c, False) for c in comps]
+        if not comps:
+            return Val('[]', LIST(INT), const=(), byte=True)
+        t = comps[0].ty
+        for c in comps[1:]:
+            t = join_types(t, c.ty)
+            if t is None:
+                raise Untranslatable('a heterogeneous tuple where a sequence is expected')
+        comps = [self.coerce(c, t) for c in comps]
+        const = tuple(c.const for c in comps) if all(c.is_const for c in comps) else _NC
+        return Val('[' + ', '.join(c.term for c in comps) + ']', LIST(t), const=const, byte=all(c.byte for c in comps), elts=comps)
+
     def coerce(self, v, ty):
         if v.ty == ty:
             return v
+        if v.ty == EMPTYLIST and is_seq(ty):
+            return Val(f'([] : {lean_ty(ty)})', ty, byte=True)
         if isinstance(ty, tuple) and ty[0] == 'opt':
             if v.ty == NONE:
                 return Val('none', ty, const=None)
@@ -390,6 +720,16 @@ class FnTranslator:
                 return Val(f'(Sum.inl {v.term})', ty)
             if v.ty == ty[2]:
                 return Val(f'(Sum.inr {v.term})', ty)
+        if isinstance(ty, tuple) and ty[0] == 'list' and isinstance(v.ty, tuple) and v.ty[0] == 'tuple':
+            w = self.to_list(v, deep=isinstance(ty[1], tuple) and ty[1][0] == 'list')
+            if w.ty == ty:
+                return w
+            return Val('[' + ', '.join(self.coerce(c, ty[1]).term for c in w.elts) + ']', ty, byte=w.byte)
+        if isinstance(ty, tuple) and ty[0] == 'list' and v.ty in (BYTEARRAY, BUFFER) and ty[1] == INT:
+            return Val(v.term, ty, byte=True)
+        if isinstance(ty, tuple) and ty[0] == 'tuple' and isinstance(v.ty, tuple) and v.ty[0] == 'tuple' and len(ty) == len(v.ty):
+            comps = [self.coerce(c, t) for c, t in zip(self.components(v), ty[1:])]
+            return Val('(' + ', '.join(c.term for c in comps) + ')', ty, elts=comps)
         raise Untranslatable(f'a value of type {v.ty} where {ty} is expected')
 
     def truth(self, v):
@@ -405,8 +745,12 @@ class FnTranslator:
             return Val(f'({v.term} != "")', BOOL)
         if v.ty == NONE:
             return Val('false', BOOL, const=False)
-        if isinstance(v.ty, tuple) and v.ty[0] in ('list', 'dict'):
+        if isinstance(v.ty, tuple) and v.ty[0] in ('list', 'dict', 'bytearray', 'buffer'):
             return Val(f'(!({v.term}).isEmpty)', BOOL)
+        if isinstance(v.ty, tuple) and v.ty[0] == 'opt' and v.ty[1] != NONE:
+            x = self.fresh('o')
+            inner = self.truth(Val(x, v.ty[1]))
+            return Val(f'(match {v.term} with | none => false | some {x} => {inner.term})', BOOL)
         raise Untranslatable(f'truth value of a {v.ty}')
 
     def none_test(self, e, env):
@@ -432,14 +776,27 @@ class FnTranslator:
         src = ast.unparse(e)
         if src in self.opaque:
             name, ty = self.opaque[src]
+            if isinstance(ty, tuple) and ty[0] == 'raises':
+                return self.bind(ctx, lean_name(name), ty[1])      # an opaque read that can raise
             return Val(lean_name(name), ty)
         if isinstance(e, ast.Constant):
             if isinstance(e.value, (bool, int, str)) or e.value is None:
                 return self.const_val(src, e.value)
+            if isinstance(e.value, bytes):
+                return Val('[' + ', '.join(int_lit(b) for b in e.value) + ']', BYTEARRAY, const=e.value)
             raise Untranslatable(f'literal {src}')
         if isinstance(e, ast.Name):
-            if e.id in env:
-                return env[e.id]
+            v = self.lookup(e.id, env, ctx)
+            if v is not None and getattr(v, 'partial', False):
+                raise Untranslatable(f'{e.id}: a dict dumped without its str keys used otherwise than by an int subscript')
+            if v is not None:
+                if v.view is not None:
+                    return self.materialise(v, env, ctx)
+                if v.bound is not None or v.fields is not None:
+                    raise Untranslatable(f'{e.id} (a bound method / an object) used as a value')
+                return v
+            if e.id in self.local_names:
+                raise Untranslatable(f'local {e.id} is not available here (read before assignment, or assigned inside a loop)')
             if e.id in vars(self.module) and not callable(vars(self.module)[e.id]) and e.id not in self.module_aliases:
                 return self.const_val(e.id, vars(self.module)[e.id])
             raise Untranslatable(f'name {e.id}')
@@ -449,10 +806,32 @@ class FnTranslator:
                 if not hasattr(mod, e.attr):
                     raise Untranslatable(f'{src} does not exist')
                 return self.const_val(src, getattr(mod, e.attr))
+            if isinstance(e.value, ast.Name):
+                o = self.lookup(e.value.id, env, ctx)
+                if o is not None and o.fields is not None:
+                    if e.attr not in o.fields:
+                        raise Untranslatable(f'{src}: the object is declared without this attribute')
+                    return o.fields[e.attr]
+                if o is not None and isinstance(o.ty, NamedTupleType) and e.attr in o.ty.fields:
+                    k = o.ty.fields.index(e.attr)
+                    return Val(proj(o.term, k, len(o.ty) - 1), o.ty[1 + k], byte=o.byte)
             raise Untranslatable(f'attribute {src}')
         if isinstance(e, ast.Tuple):
             vs = [self.ex(x, env, ctx) for x in e.elts]
-            return Val('(' + ', '.join(v.term for v in vs) + ')', TUPLE(*[v.ty for v in vs]))
+            if not vs:
+                return Val('[]', LIST(INT), const=(), byte=True)
+            if len(vs) == 1:
+                return self.to_list(Val(f'({vs[0].term})', TUPLE(vs[0].ty), elts=vs, byte=vs[0].byte), deep=True)
+            const = tuple(v.const for v in vs) if all(v.is_const for v in vs) else _NC
+            return Val('(' + ', '.join(v.term for v in vs) + ')', TUPLE(*[v.ty for v in vs]), elts=vs, byte=all(v.byte for v in vs),
+                       const=const)
+        if isinstance(e, ast.List):
+            vs = [self.ex(x, env, ctx) for x in e.elts]
+            if not vs:
+                return Val('[]', EMPTYLIST, byte=True)
+            return self.to_list(Val('', TUPLE(*[v.ty for v in vs]), elts=vs, byte=all(v.byte for v in vs)), deep=False)
+        if isinstance(e, (ast.ListComp, ast.GeneratorExp)):
+            return self.comprehension(e, env, ctx)
         if isinstance(e, ast.BinOp):
             return self.binop(e, env, ctx)
         if isinstance(e, ast.UnaryOp):
@@ -491,15 +870,27 @@ class FnTranslator:
     def binop(self, e, env, ctx):
         a = self.ex(e.left, env, ctx)
         b = self.ex(e.right, env, ctx)
+        op = type(e.op)
+        if FLOAT in (a.ty, b.ty) or (op is ast.Div and a.ty == INT and b.ty == INT):
+            return self.float_op(op, a, b, ctx)
+        if op is ast.Mult and (is_seq(a.ty) or (isinstance(a.ty, tuple) and a.ty[0] == 'tuple')) and b.ty == INT:
+            xs = self.to_list(a)
+            if xs.elts is not None and len(xs.elts) == 1:
+                return Val(f'(List.replicate ({b.term}).toNat {xs.elts[0].term})', xs.ty, byte=xs.byte)
+            return Val(f'(Py.repeat {xs.term} {b.term})', xs.ty, byte=xs.byte)
+        if op is ast.Add and is_seq(a.ty) and is_seq(b.ty) and lean_ty(a.ty) == lean_ty(b.ty) and (a.ty == b.ty or BUFFER not in (a.ty, b.ty)):
+            return Val(f'({a.term} ++ {b.term})', a.ty if a.ty == b.ty else LIST(INT), byte=a.byte and b.byte)
+        if BOOL in (a.ty, b.ty) and {a.ty, b.ty} <= {BOOL, INT} and op in (ast.BitXor, ast.BitAnd, ast.BitOr) and a.ty == b.ty:
+            sym = {ast.BitXor: '!=', ast.BitAnd: '&&', ast.BitOr: '||'}[op]
+            return Val(f'({a.term} {sym} {b.term})', BOOL)
         if a.ty != INT or b.ty != INT:
             raise Untranslatable(f'{type(e.op).__name__} on {a.ty} and {b.ty}')
-        op = type(e.op)
         if op in (ast.Add, ast.Sub, ast.Mult):
             return Val(f'({a.term} {"+" if op is ast.Add else "-" if op is ast.Sub else "*"} {b.term})', INT)
         if op in (ast.FloorDiv, ast.Mod):
             div = op is ast.FloorDiv
             if b.is_const and b.const > 0:      # floor = Euclidean division for a positive divisor
-                return Val(f'({a.term} {"/" if div else "%"} {b.term})', INT)
+                return Val(f'({a.term} {"/" if div else "%"} {b.term})', INT, byte=(not div) and b.const <= 256)
             if b.is_const and b.const < 0:
                 return Val(f'(Int.{"fdiv" if div else "fmod"} {a.term} {b.term})', INT)
             return self.bind(ctx, f'(Py.{"floordiv" if div else "mod"} {a.term} {b.term})', INT)
@@ -507,12 +898,32 @@ class FnTranslator:
             left = op is ast.LShift
             if b.is_const and 0 <= b.const <= 64:
                 return Val(f'({a.term} {"*" if left else "/"} {int_lit(2 ** b.const)})', INT)
+            if b.nonneg and not self.spec.get('legacy'):
+                # the count is known to be ≥ 0 (a loop variable of `range`): the shift cannot raise
+                return Val(f'({a.term} * 2 ^ ({b.term}).toNat)' if left else f'(Int.fdiv {a.term} (2 ^ ({b.term}).toNat))', INT)
             return self.bind(ctx, f'(Py.{"shl" if left else "shr"} {a.term} {b.term})', INT)
         if op in (ast.BitAnd, ast.BitOr, ast.BitXor):
-            return Val(f'(Py.{"band" if op is ast.BitAnd else "bor" if op is ast.BitOr else "bxor"} {a.term} {b.term})', INT)
+            byte = (a.byte and b.byte) or (op is ast.BitAnd and ((a.is_const and 0 <= a.const < 256) or (b.is_const and 0 <= b.const < 256)))
+            return Val(f'(Py.{"band" if op is ast.BitAnd else "bor" if op is ast.BitOr else "bxor"} {a.term} {b.term})', INT, byte=byte)
         if op is ast.Pow and b.is_const and 0 <= b.const <= 64:
             return Val(f'({a.term} ^ {b.const})', INT)
         raise Untranslatable(f'operator {op.__name__}')
+
+    def as_float(self, v):
+        if v.ty == FLOAT:
+            return v
+        if v.ty == INT:
+            return Val(f'(Py.Q.ofInt {v.term})', FLOAT)
+        raise Untranslatable(f'a {v.ty} in float arithmetic')
+
+    def float_op(self, op, a, b, ctx):
+        """the float sub-language, modelled in exact rational arithmetic (ASSUMPTION, see docs/TRANSLATOR.md)"""
+        a, b = self.as_float(a), self.as_float(b)
+        if op in (ast.Add, ast.Sub, ast.Mult):
+            return Val(f'(Py.Q.{"add" if op is ast.Add else "sub" if op is ast.Sub else "mul"} {a.term} {b.term})', FLOAT)
+        if op is ast.Div:
+            return self.bind(ctx, f'(Py.Q.div {a.term} {b.term})', FLOAT)
+        raise Untranslatable(f'float operator {op.__name__}')
 
     def boolop(self, is_and, values, env, ctx, truthy):
         first, rest = values[0], values[1:]
@@ -526,7 +937,7 @@ class FnTranslator:
             # `X is not None and C` / `X is None or C`: C is evaluated only when X is not None
             # `X is None and C` / `X is not None or C`: C is evaluated only when X is None
             c_when_some = (is_and and not isnone) or (not is_and and isnone)
-            sub = Ctx()
+            sub = Ctx(ctx, True)
             r = self.boolop(is_and, rest, env_some if c_when_some else env_none, sub, True)
             a_none, a_some = (absorbing, None) if c_when_some else (None, absorbing)
             if sub.binds:
@@ -535,14 +946,41 @@ class FnTranslator:
                      f'  | some {x} => {ok(a_some) if a_some else inner})')
                 return self.bind(ctx, m, BOOL)
             return Val(f'(match {env[name].term} with | none => {a_none or r.term} | some {x} => {a_some or r.term})', BOOL)
+        if truthy and isinstance(first, ast.Name) and ast.unparse(first) not in self.opaque:
+            fv = self.lookup(first.id, env, ctx)
+            if fv is not None and fv.view is None and isinstance(fv.ty, tuple) and fv.ty[0] == 'opt':
+                # truthiness of an Optional local narrows it: `x and C` / `x or C`
+                env_none, env_some, x = self.narrow(env, first.id)
+                tx = self.truth(env_some[first.id])
+                sub_s, sub_n = Ctx(ctx, True), Ctx(ctx, True)
+                rs = self.boolop(is_and, rest, env_some, sub_s, True)
+                self.no_updates(sub_s)
+                if is_and:
+                    some_t, none_t, binds_n = f'({tx.term} && {rs.term})', 'false', []
+                    if sub_s.binds:
+                        some_t = f'(if {tx.term} then {seal(sub_s.binds, ok(rs.term))} else {ok("false")})'
+                else:
+                    rn = self.boolop(is_and, rest, env_none, sub_n, True)
+                    self.no_updates(sub_n)
+                    some_t, none_t, binds_n = f'({tx.term} || {rs.term})', rn.term, sub_n.binds
+                    if sub_s.binds:
+                        some_t = f'(if {tx.term} then {ok("true")} else {seal(sub_s.binds, ok(rs.term))})'
+                if sub_s.binds or binds_n:
+                    if not sub_s.binds:
+                        some_t = ok(some_t)
+                    none_m = seal(binds_n, ok(none_t)) if binds_n else ok(none_t)
+                    return self.bind(ctx, f'(match {fv.term} with\n  | none => {none_m}\n  | some {x} => {some_t})', BOOL)
+                return Val(f'(match {fv.term} with | none => {none_t} | some {x} => {some_t})', BOOL)
         a = self.ex_truth(first, env, ctx) if truthy else self.ex(first, env, ctx)
+        if not truthy and not is_and and a.ty == OPT(BOOL):
+            a = self.truth(a)       # `x or C` with x: Optional[bool]: a true x is True
         if a.ty != BOOL:
             raise Untranslatable('and / or on non-boolean operands outside a truth context')
         if a.is_const:
             if bool(a.const) != is_and:       # False and … / True or …: the rest is not evaluated
                 return Val(absorbing, BOOL, const=not is_and)
             return self.boolop(is_and, rest, env, ctx, truthy)
-        sub = Ctx()
+        sub = Ctx(ctx, True)
         b = self.boolop(is_and, rest, env, sub, truthy)
         if b.ty != BOOL:
             raise Untranslatable('and / or on non-boolean operands outside a truth context')
@@ -602,6 +1040,15 @@ class FnTranslator:
             return Val('false', BOOL, const=False)       # an int / str / bool is never equal to None
         if {a.ty, b.ty} == {INT, STR}:
             return Val('false', BOOL, const=False)
+        if isinstance(a.ty, tuple) and isinstance(b.ty, tuple) and a.ty[0] == b.ty[0] == 'tuple' and len(a.ty) == len(b.ty) \
+                and all(t in (INT, BOOL, STR) for t in a.ty[1:] + b.ty[1:]):
+            if a.ty != b.ty:
+                return Val('false', BOOL, const=False)
+            return Val(f'({a.term} == {b.term})', BOOL)
+        if a.ty == BYTEARRAY and b.ty == BYTEARRAY:
+            # (bytes and bytearray compare by content; lists and tuples are both `List` here, but `(1, 2) == [1, 2]` is
+            #  False in Python, and a Buffer has no `__eq__`: those comparisons stay outside the subset)
+            return Val(f'({a.term} == {b.term})', BOOL)
         raise Untranslatable(f'== between {a.ty} and {b.ty}')
 
     def member(self, a, rhs, env, ctx):
@@ -615,19 +1062,58 @@ class FnTranslator:
                 return Val('false', BOOL, const=False)
             return Val('(' + ' || '.join(p.term for p in parts) + ')', BOOL)
         c = self.ex(rhs, env, ctx)
-        if isinstance(c.ty, tuple) and c.ty[0] == 'list':
+        if isinstance(c.ty, tuple) and c.ty[0] == 'tuple':
+            c = self.to_list(c, deep=False)
+        if is_seq(c.ty):
             y = self.fresh('y')
-            eq = self.equal(a, Val(y, c.ty[1]))
+            eq = self.equal(a, Val(y, elem_ty(c.ty)))
             return Val(f'(({c.term}).any (fun {y} => {eq.term}))', BOOL)
         if isinstance(c.ty, tuple) and c.ty[0] == 'dict':
             return Val(f'(Py.hasKey {c.term} {self.coerce(a, c.ty[1]).term})', BOOL)
         raise Untranslatable(f'`in` on a {c.ty}')
 
     def compare(self, e, env, ctx):
+        saved = (len(ctx.binds), dict(self.counter), dict(ctx.updates))
+        try:
+            return self.compare_eager(e, env, ctx)
+        except _LaterOperandRaises:
+            del ctx.binds[saved[0]:]
+            self.counter = saved[1]
+            ctx.updates.clear()
+            ctx.updates.update(saved[2])
+        left = self.ex(e.left, env, ctx)
+        return self.compare_lazy(left, list(zip(e.ops, e.comparators)), env, ctx)
+
+    def compare_lazy(self, left, links, env, ctx):
+        """a chained comparison whose later operands can raise: they are evaluated only when Python evaluates them"""
+        op, right = links[0]
+        if isinstance(op, (ast.In, ast.NotIn)):
+            if len(links) > 1:
+                raise Untranslatable('chained comparison after `in`')
+            r = self.member(left, right, env, ctx)
+            return self.negate(r) if isinstance(op, ast.NotIn) else r
+        rv = self.ex(right, env, ctx)
+        r = self.compare_one(op, left, rv)
+        if len(links) == 1:
+            return r
+        sub = Ctx(ctx, True)
+        rest = self.compare_lazy(rv, links[1:], env, sub)
+        if r.is_const:
+            if not r.const:
+                return Val('false', BOOL, const=False)
+            ctx.binds.extend(sub.binds)
+            return rest
+        if sub.binds:
+            return self.bind(ctx, f'(if {r.term} then {seal(sub.binds, ok(rest.term))} else {ok("false")})', BOOL)
+        if rest.is_const:
+            return r if rest.const else Val('false', BOOL, const=False)
+        return Val(f'({r.term} && {rest.term})', BOOL)
+
+    def compare_eager(self, e, env, ctx):
         left = self.ex(e.left, env, ctx)
         parts = []
         for k, (op, right) in enumerate(zip(e.ops, e.comparators)):
-            sub = ctx if k == 0 else Ctx()
+            sub = ctx if k == 0 else Ctx(ctx, True)
             if isinstance(op, (ast.In, ast.NotIn)):
                 r = self.member(left, right, env, sub)
                 if isinstance(op, ast.NotIn):
@@ -637,7 +1123,7 @@ class FnTranslator:
                 rv = self.ex(right, env, sub)
                 r = self.compare_one(op, left, rv)
             if sub is not ctx and sub.binds:
-                raise Untranslatable('a later operand of a chained comparison can raise')
+                raise _LaterOperandRaises()
             parts.append(r)
             left = rv
             if rv is None and k + 1 < len(e.ops):
@@ -664,7 +1150,7 @@ class FnTranslator:
         if nt is not None and isinstance(env[nt[0]].ty, tuple) and env[nt[0]].ty[0] == 'opt':
             name, isnone = nt
             env_none, env_some, x = self.narrow(env, name)
-            sn, ss = Ctx(), Ctx()
+            sn, ss = Ctx(ctx, True), Ctx(ctx, True)
             vn = self.ex(e.body if isnone else e.orelse, env_none, sn)
             vs = self.ex(e.orelse if isnone else e.body, env_some, ss)
             ty, vn, vs = self.branch_pair(ctx, None, vn, vs, sn, ss)
@@ -676,7 +1162,7 @@ class FnTranslator:
         c = self.ex_truth(e.test, env, ctx)
         if c.is_const:
             return self.ex(e.body if c.const else e.orelse, env, ctx)
-        sa, sb = Ctx(), Ctx()
+        sa, sb = Ctx(ctx, True), Ctx(ctx, True)
         va = self.ex(e.body, env, sa)
         vb = self.ex(e.orelse, env, sb)
         ty, va, vb = self.branch_pair(ctx, c.term, va, vb, sa, sb)
@@ -684,9 +1170,36 @@ class FnTranslator:
             return self.bind(ctx, f'(if {c.term} then {seal(sa.binds, ok(va.term))} else {seal(sb.binds, ok(vb.term))})', ty)
         return Val(f'(if {c.term} then {va.term} else {vb.term})', ty)
 
+    def materialise(self, v, env, ctx):
+        """the current value of a view `base[idx]`"""
+        base, idx = v.view
+        b = self.lookup(base, env, ctx)
+        if b is None or not (isinstance(b.ty, tuple) and b.ty[0] == 'list'):
+            raise Untranslatable(f'view of {base}, which is not available here')
+        return self.bind(ctx, f'(Py.index {b.term} {idx})', b.ty[1])
+
+    def opt_int(self, node, env, ctx):
+        if node is None:
+            return 'none'
+        v = self.ex(node, env, ctx)
+        if v.ty != INT:
+            raise Untranslatable(f'slice bound of type {v.ty}')
+        return f'(some {v.term})'
+
+    def slice_bounds(self, sl, env, ctx):
+        if sl.step is not None:
+            raise Untranslatable('slice with a step')
+        return self.opt_int(sl.lower, env, ctx), self.opt_int(sl.upper, env, ctx)
+
     def subscript(self, e, env, ctx):
         if isinstance(e.slice, ast.Slice):
-            raise Untranslatable('slice')
+            c = self.ex(e.value, env, ctx)
+            if isinstance(c.ty, tuple) and c.ty[0] == 'tuple':
+                c = self.to_list(c)
+            if not is_seq(c.ty):
+                raise Untranslatable(f'slice of a {c.ty}')
+            lo, hi = self.slice_bounds(e.slice, env, ctx)
+            return Val(f'(Py.slice {c.term} {lo} {hi})', BYTEARRAY if c.ty == BUFFER else c.ty, byte=c.byte)
         if isinstance(e.value, (ast.Tuple, ast.List)) and ast.unparse(e.value) not in self.opaque:
             vs = [self.ex(x, env, ctx) for x in e.value.elts]
             if not vs:
@@ -703,10 +1216,16 @@ class FnTranslator:
             return self.bind(ctx, f'(Py.index {items} {idx.term})', ty)
         c = self.ex(e.value, env, ctx)
         k = self.ex(e.slice, env, ctx)
-        if isinstance(c.ty, tuple) and c.ty[0] == 'list':
+        if getattr(c, 'partial', False):
+            if k.ty not in (INT, NONE, OPT(INT)):
+                raise Untranslatable(f'{ast.unparse(e.value)} (dumped without its str keys) subscripted with a {k.ty}')
+            c = Val(c.term, c.ty, const=c.const, byte=c.byte)     # (a plain table from here on)
+        if isinstance(c.ty, tuple) and c.ty[0] == 'tuple' and not (k.is_const and isinstance(k.const, int)):
+            c = self.to_list(c)
+        if is_seq(c.ty):
             if k.ty != INT:
                 raise Untranslatable(f'index of type {k.ty}')
-            return self.bind(ctx, f'(Py.index {c.term} {k.term})', c.ty[1])
+            return self.bind(ctx, f'(Py.index {c.term} {k.term})', elem_ty(c.ty), byte=c.byte)
         if isinstance(c.ty, tuple) and c.ty[0] == 'dict':
             if k.ty == NONE and c.ty[1] in (INT, STR):
                 return self.bind(ctx, err('keyError'), c.ty[2])
@@ -722,14 +1241,53 @@ class FnTranslator:
         raise Untranslatable(f'subscript of a {c.ty}')
 
     # ------------------------------------------------------------ calls
+    BUILTINS = ('int', 'len', 'min', 'max', 'abs', 'divmod', 'isinstance', 'bool', 'sum', 'range', 'reversed', 'enumerate', 'zip',
+                'any', 'all', 'bytearray', 'bytes', 'list', 'tuple', 'iter', 'next', 'float')
+
     def call(self, e, env, ctx):
         f = e.func
+        if isinstance(f, ast.Name):
+            local = self.lookup(f.id, env, ctx)
+            if local is not None:
+                if local.bound is not None:
+                    return self.seq_method(local.bound[0], local.bound[1], e, env, ctx)
+                raise Untranslatable(f'call of the local {f.id}')
         if isinstance(f, ast.Name) and f.id not in env:
             nm = f.id
+            if nm in self.registry and self.registry[nm].get('nested_in') is not None:
+                if self.registry[nm]['nested_in'] != (self.spec['module'], tuple(self.spec['path'])):
+                    raise Untranslatable(f'{nm} is a nested function of another function')
+                return self.call_translated(self.registry[nm], e, env, ctx)
+            if nm in self.local_names:
+                raise Untranslatable(f'call of the local {nm}')
             if nm in self.registry and self.resolves_to(nm, vars(self.module).get(nm, self.registry[nm].get('pyobj'))):
                 return self.call_translated(self.registry[nm], e, env, ctx)
-            if nm in ('int', 'len', 'min', 'max', 'abs', 'divmod', 'isinstance', 'bool', 'sum') and nm not in vars(self.module):
+            if nm in self.BUILTINS and nm not in vars(self.module):
                 return self.builtin(nm, e, env, ctx)
+            if nm == 'Buffer' and isinstance(vars(self.module).get(nm), type) and hasattr(vars(self.module)[nm], 'append_bits') \
+                    and not e.keywords and len(e.args) <= 1:
+                if not e.args:
+                    return Val('([] : List Int)', BUFFER)
+                xs = self.seq_arg(e.args[0], env, ctx)
+                if elem_ty(xs.ty) != INT:
+                    raise Untranslatable(f'Buffer of a {xs.ty}')
+                self.check_bytes(BUFFER, xs, ctx)
+                return Val(xs.term, BUFFER)
+            import functools
+            import operator
+            if nm == 'product' and vars(self.module).get(nm) is itertools.product:
+                if len(e.args) == 1 and len(e.keywords) == 1 and e.keywords[0].arg == 'repeat' \
+                        and isinstance(e.keywords[0].value, ast.Constant) and e.keywords[0].value.value == 2:
+                    xs = self.to_list(self.ex(e.args[0], env, ctx))
+                    return Val(f'(Py.product2 {xs.term})', LIST(TUPLE(elem_ty(xs.ty), elem_ty(xs.ty))), byte=xs.byte)
+                raise Untranslatable('itertools.product in another form than product(xs, repeat=2)')
+            if nm == 'reduce' and vars(self.module).get(nm) is functools.reduce and len(e.args) == 2 and not e.keywords \
+                    and isinstance(e.args[0], ast.Name) and vars(self.module).get(e.args[0].id) is operator.xor \
+                    and e.args[0].id not in self.local_names:
+                xs = self.to_list(self.ex(e.args[1], env, ctx))
+                if elem_ty(xs.ty) != INT:
+                    raise Untranslatable('reduce(xor, …) over non-integers')
+                return self.bind(ctx, f'(Py.reduceXor {xs.term})', INT, byte=xs.byte)
             raise Untranslatable(f'call of {nm}')
         if isinstance(f, ast.Attribute):
             if isinstance(f.value, ast.Name) and f.value.id in self.module_aliases and f.value.id not in env:
@@ -737,6 +1295,27 @@ class FnTranslator:
                 if f.attr in self.registry and self.resolves_to(f.attr, getattr(mod, f.attr, None)):
                     return self.call_translated(self.registry[f.attr], e, env, ctx)
                 raise Untranslatable(f'call of {ast.unparse(f)}')
+            if isinstance(f.value, ast.Name) and ast.unparse(f.value) not in self.opaque:
+                o = self.lookup(f.value.id, env, ctx)
+                if o is not None and o.fields is not None:
+                    ent = self.registry.get(f.attr)
+                    if ent is None or not ent.get('method') or ent.get('class') != o.ty[2]:
+                        raise Untranslatable(f'method {f.attr} of the object {f.value.id} is not translated')
+                    return self.call_translated(ent, e, env, ctx, fields=o.fields)
+                if o is not None and (o.view is not None or is_seq(o.ty) or (isinstance(o.ty, tuple) and o.ty[0] == 'iter')):
+                    return self.seq_method(f.value.id, f.attr, e, env, ctx)
+            if isinstance(f.value, ast.Subscript) and isinstance(f.value.value, ast.Name) and not isinstance(f.value.slice, ast.Slice) \
+                    and f.attr in self.MUTATORS and ast.unparse(f.value) not in self.opaque:
+                b = self.lookup(f.value.value.id, env, ctx)
+                if b is not None and b.view is None and isinstance(b.ty, tuple) and b.ty[0] == 'list' and is_seq(b.ty[1]):
+                    # `rows[i].pop()` …: the method is applied to a view of row i
+                    i = self.ex(f.value.slice, env, ctx)
+                    if i.ty != INT:
+                        raise Untranslatable(f'index of type {i.ty}')
+                    if not (i.is_const or i.term.replace("'", '').replace('_', '').isalnum()):
+                        i = self.let_bind(ctx, i.term, INT, base='i')
+                    tmp = '_row_of_' + f.value.value.id
+                    return self.seq_method(tmp, f.attr, e, {**env, tmp: Val(None, b.ty[1], view=(f.value.value.id, i.term))}, ctx)
             recv = self.ex(f.value, env, ctx)
             if e.keywords:
                 raise Untranslatable(f'keyword arguments of method {f.attr}')
@@ -755,6 +1334,8 @@ class FnTranslator:
                                                           'values', 'get', 'append', 'extend'):
                 # the attribute look-up fails before any argument is evaluated
                 return self.bind(ctx, err('attributeError'), STR)
+            if is_seq(recv.ty) or (isinstance(recv.ty, tuple) and recv.ty[0] == 'tuple'):
+                return self.seq_read_method(self.to_list(recv), f.attr, e, env, ctx)
             raise Untranslatable(f'method {f.attr} of a {recv.ty}')
         raise Untranslatable(f'call {ast.unparse(e)[:50]}')
 
@@ -762,7 +1343,7 @@ class FnTranslator:
         ent = self.registry[name]
         return ent.get('pyobj') is None or obj is ent['pyobj'] or getattr(obj, '__wrapped__', None) is ent['pyobj']
 
-    def call_translated(self, ent, e, env, ctx):
+    def call_translated(self, ent, e, env, ctx, fields=None):
         names = [p for p, _ in ent['params']]
         given = {}
         if len(e.args) > len(names):
@@ -791,19 +1372,302 @@ class FnTranslator:
                 if not (v.is_const and v.const == ty.value and type(v.const) is type(ty.value)):
                     raise Untranslatable(f'{ent["name"]} is translated for {p}={ty.value!r} only')
                 continue
+            if isinstance(ty, tuple) and ty[0] == 'obj':
+                raise Untranslatable(f'{ent["name"]} takes an object parameter and cannot be called from translated code')
             args.append(self.coerce(v, ty).term)
-        for p in ent.get('extra', []):
-            raise Untranslatable(f'{ent["name"]} has closure / opaque parameters and cannot be called from translated code')
-        term = '(' + ' '.join([ent['lean']] + args) + ')' if args else ent['lean']
-        if ent['monadic']:
-            return self.bind(ctx, term, ent['ret'])
-        return Val(term, ent['ret'])
+        # closure variables are read from the caller's scope at call time; the opaque reads of a method from the
+        # fields of the object it is called on
+        pre, post = [], []
+        for p, ty in ent.get('closure', []):
+            v = self.lookup(p, env, ctx)
+            if v is None or v.view is not None or v.bound is not None or v.fields is not None:
+                raise Untranslatable(f'closure variable {p} of {ent["name"]} is not available at the call')
+            pre.append(self.coerce(v, ty).term)
+        for p, ty in ent.get('opaque', []):
+            if fields is None or p not in fields:
+                raise Untranslatable(f'{ent["name"]} has the opaque parameter {p}, which is not available at the call')
+            post.append(self.coerce(fields[p], ty).term)
+        allargs = pre + args + post
+        term = '(' + ' '.join([ent['lean']] + allargs) + ')' if allargs else ent['lean']
+        res = self.bind(ctx, term, ent['ret'], byte=ent.get('ret_byte', False)) if ent['monadic'] \
+            else Val(term, ent['ret'], byte=ent.get('ret_byte', False))
+        if not ent.get('mutates'):
+            return res
+        # the callee updates some of its arguments in place: they come back in front of the result
+        if not ent['monadic']:
+            res = self.let_bind(ctx, term, ent['ret'], base='r')
+        muts = ent['mutates']
+        nres = len(muts) + (0 if ent['py_ret'] == NONE else 1)
+        for k, p in enumerate(muts):
+            a = given.get(p)
+            if not isinstance(a, ast.Name):
+                raise Untranslatable(f'{ent["name"]} updates its argument {p} in place: it must be a plain name')
+            pty = dict(ent['params'])[p]
+            self.update(a.id, Val(proj(res.term, k, nres), pty), env, ctx)
+        if ent['py_ret'] == NONE:
+            return Val('()', NONE, const=None)
+        return Val(proj(res.term, nres - 1, nres), ent['py_ret'])
+
+    # ------------------------------------------------------------ sequences: in-place updates as rebinding
+    def update(self, name, newval, env, ctx):
+        """the local sequence `name` (or the row a view stands for) now has the value `newval`"""
+        if ctx.conditional:
+            raise Untranslatable('an in-place update inside a conditionally evaluated expression')
+        cur = self.lookup(name, env, ctx)
+        if cur is None:
+            raise Untranslatable(f'{name} is not available here')
+        if cur.view is not None:
+            base, idx = cur.view
+            b = self.lookup(base, env, ctx)
+            self.check_updatable(base)
+            t = self.bind(ctx, f'(Py.setItem {b.term} {idx} {newval.term})', b.ty)
+            ctx.updates[base] = t
+            return
+        self.check_updatable(name)
+        if not newval.term.replace("'", '').replace('_', '').replace('.', '').isalnum():
+            newval = self.let_bind(ctx, newval.term, newval.ty, base=name)
+        keep = cur.ty != EMPTYLIST and lean_ty(cur.ty) == lean_ty(newval.ty)
+        ctx.updates[name] = Val(newval.term, cur.ty if keep else newval.ty)
+
+    def check_updatable(self, name):
+        declared = list(self.spec.get('closure', {})) + list(self.spec['params'])
+        if name in declared and name not in self.mutates:
+            raise Untranslatable(f'the parameter {name} is updated in place but not declared in `mutates`')
+
+    def check_bytes(self, target_ty, v, ctx):
+        """storing the value / the elements of `v` into a bytearray: they must be in range(256)"""
+        if target_ty in (BYTEARRAY, BUFFER) and not v.byte:
+            self.bind(ctx, f'(Py.checkByte{"s" if is_seq(v.ty) else ""} {v.term})', NONE)
+
+    def seq_arg(self, node, env, ctx):
+        """an iterable argument that is consumed at once, as a list"""
+        if isinstance(node, ast.GeneratorExp):
+            return self.comprehension(node, env, ctx, direct=True)
+        if isinstance(node, ast.Call) and isinstance(node.func, ast.Name) and node.func.id == 'islice' \
+                and vars(self.module).get('islice') is itertools.islice and 'islice' not in self.local_names:
+            # islice(it, n) of a local iterator: the next n items; the iterator advances
+            if node.keywords or len(node.args) != 2 or not isinstance(node.args[0], ast.Name):
+                raise Untranslatable('islice in another form than islice(<local iterator>, n)')
+            it = self.lookup(node.args[0].id, env, ctx)
+            if it is None or not (isinstance(it.ty, tuple) and it.ty[0] == 'iter'):
+                raise Untranslatable('islice of something else than a local iterator')
+            n = self.ex(node.args[1], env, ctx)
+            if n.ty != INT:
+                raise Untranslatable('islice with a non-integer count')
+            t = self.bind(ctx, f'(Py.isliceN {it.term} {n.term})', TUPLE(LIST(it.ty[1]), LIST(it.ty[1])))
+            self.update(node.args[0].id, Val(f'{t.term}.2', it.ty), env, ctx)
+            return Val(f'{t.term}.1', LIST(it.ty[1]), byte=it.byte)
+        it = self.itertools_arg(node, env, ctx)
+        if it is not None:
+            return it
+        v = self.ex(node, env, ctx)
+        if isinstance(v.ty, tuple) and v.ty[0] == 'iter':
+            # the whole rest of an iterator
+            if isinstance(node, ast.Name):
+                self.update(node.id, Val(f'([] : {lean_ty(v.ty)})', v.ty), env, ctx)
+            return Val(v.term, LIST(v.ty[1]), byte=v.byte)
+        return self.to_list(v)
+
+    def is_module_obj(self, name, obj):
+        return name not in self.local_names and vars(self.module).get(name) is obj
+
+    def itertools_arg(self, node, env, ctx):
+        """the itertools / map pipelines of the source, consumed at once, as lists; None if `node` is something else:
+        chain(*xss) | chain.from_iterable(xss) → flatten;  zip_longest(*xss) → the columns, `None` where a row is short;
+        map(f, xs) with a translated function f of one required parameter"""
+        if not isinstance(node, ast.Call) or node.keywords:
+            return None
+        f = node.func
+        starred = len(node.args) == 1 and isinstance(node.args[0], ast.Starred)
+        if isinstance(f, ast.Name) and f.id == 'chain' and self.is_module_obj('chain', itertools.chain) and starred:
+            xss = self.seq_arg(node.args[0].value, env, ctx)
+            if not is_seq(elem_ty(xss.ty) or INT):
+                raise Untranslatable(f'chain(*…) of a {xss.ty}')
+            return Val(f'(({xss.term}).flatten)', LIST(elem_ty(elem_ty(xss.ty))), byte=xss.byte)
+        if isinstance(f, ast.Attribute) and f.attr == 'from_iterable' and isinstance(f.value, ast.Name) and f.value.id == 'chain' \
+                and self.is_module_obj('chain', itertools.chain) and len(node.args) == 1 and not starred:
+            xss = self.seq_arg(node.args[0], env, ctx)
+            if not is_seq(elem_ty(xss.ty) or INT):
+                raise Untranslatable(f'chain.from_iterable of a {xss.ty}')
+            return Val(f'(({xss.term}).flatten)', LIST(elem_ty(elem_ty(xss.ty))), byte=xss.byte)
+        if isinstance(f, ast.Name) and f.id == 'zip_longest' and self.is_module_obj('zip_longest', itertools.zip_longest) and starred:
+            xss = self.seq_arg(node.args[0].value, env, ctx)
+            if not is_seq(elem_ty(xss.ty) or INT):
+                raise Untranslatable(f'zip_longest(*…) of a {xss.ty}')
+            t = elem_ty(elem_ty(xss.ty))
+            return Val(f'(Py.zipLongest {xss.term})', LIST(LIST(OPT(t))), byte=xss.byte)
+        if isinstance(f, ast.Name) and f.id == 'map' and 'map' not in vars(self.module) and 'map' not in self.local_names \
+                and len(node.args) == 2 and isinstance(node.args[0], ast.Name) and node.args[0].id in self.registry:
+            ent = self.registry[node.args[0].id]
+            if ent.get('nested_in') is not None and ent['nested_in'] != (self.spec['module'], tuple(self.spec['path'])):
+                raise Untranslatable(f'{ent["name"]} is a nested function of another function')
+            xs = self.seq_arg(node.args[1], env, ctx)
+            x = self.fresh('x')
+            sub = Ctx(ctx, True)
+            call = ast.Call(func=ast.Name(id=node.args[0].id, ctx=ast.Load()), args=[ast.Name(id='_map_arg_', ctx=ast.Load())], keywords=[])
+            v = self.call_translated(ent, call, {**env, '_map_arg_': Val(x, elem_ty(xs.ty), byte=xs.byte)}, sub)
+            if sub.binds:
+                return self.bind(ctx, f'(Py.mapM {xs.term} (fun ({x} : {lean_ty(elem_ty(xs.ty))}) =>\n'
+                                      f'{ind(seal(sub.binds, ok(v.term)), 4)}))', LIST(v.ty))
+            return Val(f'(({xs.term}).map (fun ({x} : {lean_ty(elem_ty(xs.ty))}) => {v.term}))', LIST(v.ty), byte=v.byte)
+        return None
+
+    def seq_method(self, name, method, e, env, ctx):
+        """method call on the local sequence `name` (possibly a view), including the mutating ones"""
+        if e.keywords:
+            raise Untranslatable(f'keyword arguments of method {method}')
+        cur = self.lookup(name, env, ctx)
+        if cur is None:
+            raise Untranslatable(f'{name} is not available here')
+        if isinstance(cur.ty, tuple) and cur.ty[0] == 'iter':
+            raise Untranslatable(f'method {method} of an iterator')
+        val = self.materialise(cur, env, ctx) if cur.view is not None else cur
+        ty = val.ty
+        if method == 'append' and len(e.args) == 1:
+            x = self.ex(e.args[0], env, ctx)
+            if isinstance(e.args[0], ast.Name) and is_seq(x.ty) and e.args[0].id in self.inplace:
+                raise Untranslatable(f'{e.args[0].id} is appended to a list and updated in place: the two would be aliases')
+            if ty == EMPTYLIST:
+                ty = LIST(x.ty)
+                val = Val(f'([] : {lean_ty(ty)})', ty)
+            if ty[0] == 'list' and x.ty != ty[1]:
+                x = self.coerce(x, ty[1])
+            elif ty in (BYTEARRAY, BUFFER) and x.ty != INT:
+                raise Untranslatable(f'append of a {x.ty} to a bytearray')
+            self.check_bytes(ty, x, ctx)
+            self.update(name, Val(f'({val.term} ++ [{x.term}])', ty), env, ctx)
+            return Val('()', NONE, const=None)
+        if method == 'extend' and len(e.args) == 1:
+            ys = self.seq_arg(e.args[0], env, ctx)
+            if ty == EMPTYLIST:
+                ty = LIST(elem_ty(ys.ty))
+                val = Val(f'([] : {lean_ty(ty)})', ty)
+            if elem_ty(ys.ty) != elem_ty(ty):
+                raise Untranslatable(f'extend of a {ty} by a {ys.ty}')
+            if ty in (BYTEARRAY, BUFFER) and not ys.byte and len(ys.term) > 40:
+                ys = self.let_bind(ctx, ys.term, ys.ty, base='ys')
+            self.check_bytes(ty, ys, ctx)
+            self.update(name, Val(f'({val.term} ++ {ys.term})', ty), env, ctx)
+            return Val('()', NONE, const=None)
+        if method == 'append_bits' and ty == BUFFER and len(e.args) == 2:
+            a = self.ex(e.args[0], env, ctx)
+            n = self.ex(e.args[1], env, ctx)
+            if a.ty != INT or n.ty != INT:
+                raise Untranslatable('append_bits of non-integers')
+            self.update(name, Val(f'({val.term} ++ Py.appendBits {a.term} {n.term})', ty), env, ctx)
+            return Val('()', NONE, const=None)
+        if method == 'pop' and len(e.args) <= 1:
+            i = self.ex(e.args[0], env, ctx) if e.args else Val(int_lit(-1), INT, const=-1)
+            if i.ty != INT:
+                raise Untranslatable('pop with a non-integer index')
+            t = self.bind(ctx, f'(Py.popAt {val.term} {i.term})', TUPLE(elem_ty(ty), ty))
+            self.update(name, Val(f'{t.term}.2', ty), env, ctx)
+            return Val(f'{t.term}.1', elem_ty(ty), byte=val.byte)
+        return self.seq_read_method(val, method, e, env, ctx)
+
+    def seq_read_method(self, val, method, e, env, ctx):
+        ty = val.ty
+        if e.keywords:
+            raise Untranslatable(f'keyword arguments of method {method}')
+        if method == 'index' and len(e.args) == 1:
+            x = self.ex(e.args[0], env, ctx)
+            y = self.fresh('y')
+            eq = self.equal(Val(y, elem_ty(ty)), x)
+            return self.bind(ctx, f'(Py.indexOf {val.term} (fun {y} => {eq.term}))', INT)
+        if method == 'find' and ty in (BYTEARRAY, BUFFER) and 1 <= len(e.args) <= 2:
+            pat = self.to_list(self.ex(e.args[0], env, ctx))
+            if elem_ty(pat.ty) != INT:
+                raise Untranslatable('find of a non-bytes pattern')
+            start = self.ex(e.args[1], env, ctx) if len(e.args) == 2 else Val(int_lit(0), INT, const=0)
+            if start.ty != INT:
+                raise Untranslatable('find with a non-integer start')
+            return Val(f'(Py.find {val.term} {pat.term} {start.term})', INT)
+        if method == 'isdigit' and ty in (BYTEARRAY, BUFFER) and not e.args:
+            return Val(f'(Py.isDigit {val.term})', BOOL)
+        if method == 'toints' and ty == BUFFER and not e.args:
+            # (a generator in Python: an iterator over the codewords; the bits must not change while it is alive —
+            #  guaranteed here because an update of the buffer rebinds the name, not this value)
+            return Val(f'(Py.toInts (({val.term}).length + 1) {val.term})', ITER(INT), byte=True)
+        if method == 'getbits' and ty == BUFFER and not e.args:
+            return Val(val.term, BYTEARRAY)
+        raise Untranslatable(f'method {method} of a {ty}')
+
+    def comprehension(self, e, env, ctx, direct=False, xs=None):
+        """`[elt for x in xs if c]` / a generator expression that is consumed at once: a list"""
+        if len(e.generators) != 1 or e.generators[0].is_async:
+            raise Untranslatable('comprehension with several `for` clauses')
+        g = e.generators[0]
+        if xs is None:
+            xs = self.seq_arg(g.iter, env, ctx)
+        if isinstance(xs.ty, tuple) and xs.ty[0] == 'list' and isinstance(xs.ty[1], tuple) and xs.ty[1][0] == 'opt' \
+                and isinstance(g.target, ast.Name) and isinstance(e.elt, ast.Name) and e.elt.id == g.target.id and len(g.ifs) == 1 \
+                and ast.unparse(g.ifs[0]) == f'{g.target.id} is not None':
+            # (x for x in xs if x is not None): the present elements
+            return Val(f'(({xs.term}).filterMap id)', LIST(xs.ty[1][1]), byte=xs.byte)
+        pat, env2 = self.bind_target(g.target, elem_ty(xs.ty), env, byte=xs.byte, nonneg=xs.nonneg)
+        lst = xs.term
+        for cond in g.ifs:
+            sub = Ctx(ctx, True)
+            c = self.ex_truth(cond, env2, sub)
+            if sub.binds:
+                raise Untranslatable('comprehension: a filter condition that can raise')
+            lst = f'(({lst}).filter (fun {pat} => {c.term}))'
+        sub = Ctx(ctx, True)
+        v = self.ex(e.elt, env2, sub)
+        if isinstance(v.ty, tuple) and v.ty[0] == 'tuple' and len(v.ty) >= 4 and tuple_elem_ty(v.ty) in (INT, BOOL):
+            v = self.to_list(v, False)
+        if sub.binds:
+            if isinstance(e, ast.GeneratorExp) and not direct:
+                raise Untranslatable('a generator expression whose elements can raise, not consumed at once')
+            return self.bind(ctx, f'(Py.mapM {lst} (fun {pat} =>\n{ind(seal(sub.binds, ok(v.term)), 4)}))', LIST(v.ty), byte=v.byte)
+        if isinstance(e.elt, ast.Name) and isinstance(g.target, ast.Name) and e.elt.id == g.target.id:
+            return Val(lst, xs.ty if xs.ty[0] == 'list' else LIST(INT), byte=xs.byte)
+        return Val(f'(({lst}).map (fun {pat} => {v.term}))', LIST(v.ty), byte=v.byte)
+
+    def bind_target(self, target, ty, env, byte=False, nonneg=False):
+        """Lean binder and environment for a loop / comprehension target of element type `ty`"""
+        if isinstance(target, ast.Name):
+            x = self.fresh(target.id)
+            return f'({x} : {lean_ty(ty)})', {**env, target.id: Val(x, ty, byte=byte, nonneg=nonneg)}
+        if isinstance(target, ast.Tuple) and all(isinstance(t, ast.Name) for t in target.elts) \
+                and isinstance(ty, tuple) and ty[0] == 'tuple' and len(ty) - 1 == len(target.elts):
+            p = self.fresh('p')
+            n = len(target.elts)
+            env2 = dict(env)
+            for k, t in enumerate(target.elts):
+                env2[t.id] = Val(proj(p, k, n), ty[1 + k], byte=byte)
+            return f'({p} : {lean_ty(ty)})', env2
+        raise Untranslatable(f'loop target {ast.unparse(target)} over elements of type {ty}')
+
+    def range_val(self, e, env, ctx):
+        if e.keywords or not 1 <= len(e.args) <= 3:
+            raise Untranslatable('range shape')
+        args = [self.ex(a, env, ctx) for a in e.args]
+        if any(a.ty != INT for a in args):
+            raise Untranslatable('range of non-integers')
+        if len(args) == 1:
+            return Val(f'(Py.range (0 : Int) {args[0].term})', LIST(INT), nonneg=True)
+        if len(args) == 2:
+            return Val(f'(Py.range {args[0].term} {args[1].term})', LIST(INT), nonneg=args[0].nonneg)
+        if not (args[2].is_const and args[2].const != 0):
+            raise Untranslatable('range step that is not a non-zero literal')
+        if args[2].const > 0:
+            return Val(f'(Py.rangeStep {args[0].term} {args[1].term} {args[2].const})', LIST(INT), nonneg=args[0].nonneg)
+        return Val(f'(Py.rangeDown {args[0].term} {args[1].term} {-args[2].const})', LIST(INT))
 
     def builtin(self, nm, e, env, ctx):
         if e.keywords:
             raise Untranslatable(f'keyword arguments of {nm}')
         if nm == 'sum':
             return self.sum_call(e, env, ctx)
+        if nm == 'range':
+            return self.range_val(e, env, ctx)
+        if nm == 'len' and len(e.args) == 1 and isinstance(e.args[0], ast.Name):
+            o = self.lookup(e.args[0].id, env, ctx)
+            if o is not None and o.fields is not None:
+                if '__len__' not in o.fields:
+                    raise Untranslatable(f'len({e.args[0].id}): the object is declared without __len__')
+                return o.fields['__len__']
         if nm == 'isinstance':
             if len(e.args) != 2:
                 raise Untranslatable('isinstance arity')
@@ -817,22 +1681,79 @@ class FnTranslator:
             inst = {INT: {'int'}, BOOL: {'bool', 'int'}, STR: {'str'}}[v.ty]
             r = any(c.id in inst for c in classes)
             return Val('true' if r else 'false', BOOL, const=r)
-        args = [self.ex(a, env, ctx) for a in e.args]
+        if nm == 'next':
+            if len(e.args) != 1 or not isinstance(e.args[0], ast.Name):
+                raise Untranslatable('next of something else than a local iterator')
+            it = self.lookup(e.args[0].id, env, ctx)
+            if it is None or not (isinstance(it.ty, tuple) and it.ty[0] == 'iter'):
+                raise Untranslatable('next of something else than a local iterator')
+            t = self.bind(ctx, f'(Py.next {it.term})', TUPLE(it.ty[1], LIST(it.ty[1])))
+            self.update(e.args[0].id, Val(f'{t.term}.2', it.ty), env, ctx)
+            return Val(f'{t.term}.1', it.ty[1], byte=it.byte)
+        if nm in ('any', 'all', 'min', 'max', 'bytearray', 'bytes', 'list', 'tuple') and len(e.args) == 1 \
+                and isinstance(e.args[0], (ast.GeneratorExp, ast.ListComp)):
+            gen = e.args[0]
+            if nm in ('any', 'all') and len(gen.generators) == 1 and not gen.generators[0].ifs:
+                # short circuit: the element expression is evaluated only as far as Python evaluates it
+                g = gen.generators[0]
+                xs = self.seq_arg(g.iter, env, ctx)
+                pat, env2 = self.bind_target(g.target, elem_ty(xs.ty), env, byte=xs.byte)
+                sub = Ctx(ctx, True)
+                c = self.ex_truth(gen.elt, env2, sub)
+                if sub.binds:
+                    return self.bind(ctx, f'(Py.{nm}M {xs.term} (fun {pat} =>\n{ind(seal(sub.binds, ok(c.term)), 4)}))', BOOL)
+                return Val(f'(({xs.term}).{nm} (fun {pat} => {c.term}))', BOOL)
+            args = [self.comprehension(gen, env, ctx, direct=True)]
+        elif nm == 'iter' and len(e.args) == 1:
+            xs = self.seq_arg(e.args[0], env, ctx)
+            return Val(xs.term, ITER(elem_ty(xs.ty)), byte=xs.byte)
+        elif nm in ('bytearray', 'bytes', 'list', 'tuple') and len(e.args) == 1 and not (
+                isinstance(e.args[0], ast.Constant)):
+            probe = self.ex(e.args[0], env, Ctx(ctx, True)) if not isinstance(e.args[0], ast.Call) else None
+            if probe is not None and probe.ty in (INT, BOOL):
+                args = [self.ex(e.args[0], env, ctx)]
+            else:
+                args = [self.seq_arg(e.args[0], env, ctx)]
+        else:
+            args = [self.ex(a, env, ctx) for a in e.args]
         if nm == 'int' and len(args) == 1:
             if args[0].ty == INT:
                 return args[0]
             if args[0].ty == BOOL:
-                return Val(f'(if {args[0].term} then (1 : Int) else (0 : Int))', INT)
+                return Val(f'(if {args[0].term} then (1 : Int) else (0 : Int))', INT, byte=True)
             if args[0].ty == NONE:
                 return self.bind(ctx, err('typeError'), INT)
+            if args[0].ty == FLOAT:
+                return Val(f'(Py.Q.toInt {args[0].term})', INT)
+        if nm == 'float' and len(args) == 1 and args[0].ty in (INT, FLOAT):
+            return self.as_float(args[0])
         if nm == 'bool' and len(args) == 1:
             return self.truth(args[0])
         if nm == 'len' and len(args) == 1 and isinstance(args[0].ty, tuple) and args[0].ty[0] in ('list', 'dict'):
             return Val(f'(Int.ofNat ({args[0].term}).length)', INT)
-        if nm in ('min', 'max') and len(args) == 2 and args[0].ty == INT and args[1].ty == INT:
-            return Val(f'({nm} {args[0].term} {args[1].term})', INT)
+        if nm == 'len' and len(args) == 1 and args[0].ty in (BYTEARRAY, BUFFER):
+            return Val(f'(Int.ofNat ({args[0].term}).length)', INT)
+        if nm == 'len' and len(args) == 1 and isinstance(args[0].ty, tuple) and args[0].ty[0] == 'tuple':
+            n = len(args[0].ty) - 1
+            return Val(int_lit(n), INT, const=n, byte=n < 256)
+        if nm in ('min', 'max') and len(args) >= 2 and all(a.ty == INT for a in args):
+            t = f'({nm} {args[0].term} {args[1].term})'
+            for a in args[2:]:
+                t = f'({nm} {t} {a.term})'
+            return Val(t, INT, byte=all(a.byte for a in args))
+        if nm in ('min', 'max') and len(args) == 1:
+            xs = self.to_list(args[0])
+            if elem_ty(xs.ty) != INT:
+                raise Untranslatable(f'{nm} of a {xs.ty}')
+            return self.bind(ctx, f'(Py.{nm}Of {xs.term})', INT, byte=xs.byte)
+        if nm in ('any', 'all') and len(args) == 1:
+            xs = self.to_list(args[0])
+            x = self.fresh('x')
+            return Val(f'(({xs.term}).{nm} (fun {x} => {self.truth(Val(x, elem_ty(xs.ty))).term}))', BOOL)
         if nm == 'abs' and len(args) == 1 and args[0].ty == INT:
             return Val(f'(Int.ofNat (Int.natAbs {args[0].term}))', INT)
+        if nm == 'abs' and len(args) == 1 and args[0].ty == FLOAT:
+            return Val(f'(Py.Q.abs {args[0].term})', FLOAT)
         if nm == 'divmod' and len(args) == 2 and args[0].ty == INT and args[1].ty == INT:
             a, b = args
             if b.is_const and b.const > 0:
@@ -840,10 +1761,38 @@ class FnTranslator:
             q = self.bind(ctx, f'(Py.floordiv {a.term} {b.term})', INT)
             r = self.bind(ctx, f'(Py.mod {a.term} {b.term})', INT)
             return Val(f'({q.term}, {r.term})', TUPLE(INT, INT))
+        if nm in ('bytearray', 'bytes'):
+            if not args:
+                return Val('([] : List Int)', BYTEARRAY)
+            if len(args) == 1 and args[0].ty == INT:
+                return self.bind(ctx, f'(Py.zeros {args[0].term})', BYTEARRAY)
+            if len(args) == 1:
+                xs = self.to_list(args[0])
+                if elem_ty(xs.ty) != INT:
+                    raise Untranslatable(f'{nm} of a {xs.ty}')
+                self.check_bytes(BYTEARRAY, xs, ctx)
+                return Val(xs.term, BYTEARRAY)
+        if nm in ('list', 'tuple') and len(args) == 1:
+            xs = self.to_list(args[0])
+            return Val(xs.term, LIST(elem_ty(xs.ty)), byte=xs.byte)
+        if nm == 'reversed' and len(args) == 1:
+            xs = self.to_list(args[0])
+            return Val(f'(({xs.term}).reverse)', LIST(elem_ty(xs.ty)), byte=xs.byte, nonneg=xs.nonneg)
+        if nm == 'enumerate' and len(args) == 1:
+            xs = self.to_list(args[0])
+            return Val(f'(Py.enumerate {xs.term})', LIST(TUPLE(INT, elem_ty(xs.ty))))
+        if nm == 'zip' and len(args) == 2:
+            xs, ys = self.to_list(args[0]), self.to_list(args[1])
+            return Val(f'(List.zip {xs.term} {ys.term})', LIST(TUPLE(elem_ty(xs.ty), elem_ty(ys.ty))), byte=xs.byte and ys.byte)
         raise Untranslatable(f'{nm}({", ".join(str(a.ty) for a in args)})')
 
     def sum_call(self, e, env, ctx):
         """`sum(<expr> for x in <list of int> [if <cond>])`"""
+        if len(e.args) == 1 and not isinstance(e.args[0], ast.GeneratorExp):
+            xs = self.to_list(self.ex(e.args[0], env, ctx))
+            if elem_ty(xs.ty) != INT:
+                raise Untranslatable(f'sum of a {xs.ty}')
+            return Val(f'(Py.sumL {xs.term})', INT)
         if len(e.args) != 1 or not isinstance(e.args[0], ast.GeneratorExp) or len(e.args[0].generators) != 1:
             raise Untranslatable('sum of something else than one generator expression')
         g = e.args[0].generators[0]
@@ -851,17 +1800,20 @@ class FnTranslator:
             raise Untranslatable('sum: loop target')
         xs = self.ex(g.iter, env, ctx)
         if xs.ty != LIST(INT):
-            raise Untranslatable(f'sum over a {xs.ty}')
+            lst = self.comprehension(e.args[0], env, ctx, direct=True, xs=self.to_list(xs))
+            if elem_ty(lst.ty) != INT:
+                raise Untranslatable(f'sum of {lst.ty}')
+            return Val(f'(Py.sumL {lst.term})', INT)
         x = self.fresh(g.target.id)
         env2 = {**env, g.target.id: Val(x, INT)}
         lst = xs.term
         for cond in g.ifs:
-            sub = Ctx()
+            sub = Ctx(ctx, True)
             c = self.ex_truth(cond, env2, sub)
             if sub.binds:
                 raise Untranslatable('sum: a filter condition that can raise')
             lst = f'(({lst}).filter (fun {x} => {c.term}))'
-        sub = Ctx()
+        sub = Ctx(ctx, True)
         v = self.ex(e.args[0].elt, env2, sub)
         if v.ty != INT:
             raise Untranslatable(f'sum of {v.ty}')
@@ -870,15 +1822,42 @@ class FnTranslator:
         return Val(f'(Py.sum {lst} (fun {x} => {v.term}))', INT)
 
     # ------------------------------------------------------------ statements
-    def ret(self, v):
-        """the function result for the returned value v"""
-        t = self.coerce(v, self.ret_ty).term
+    def result_term(self, v, env):
+        """the value of the translated function for the Python result v: the parameters that are updated in place
+        (their current values) in front of it"""
+        if not self.mutates:
+            return self.coerce(v, self.ret_ty).term
+        parts = []
+        for nm in self.mutates:
+            m = env.get(nm)
+            if m is None or m.view is not None or m.bound is not None:
+                raise Untranslatable(f'the updated parameter {nm} is not available at a return')
+            parts.append(m.term)
+        if self.py_ret_ty != NONE:
+            parts.append(self.coerce(v, self.py_ret_ty).term)
+        elif v.ty != NONE:
+            raise Untranslatable(f'a {v.ty} returned where None is declared')
+        return tuple_term(parts)
+
+    def ret_raw(self, t):
+        """leave the function with the (complete) result term t, from the current context"""
+        if self.loops:
+            step = f'(Py.Step.ret {t})'
+            return ok(step) if self.loops[-1]['monadic'] else step
         return ok(t) if self.monadic else t
 
-    def k_end(self, env):
-        return self.ret(Val('()', NONE, const=None))     # falling off the end returns None
+    def ret(self, v, env):
+        """the function result for the returned value v"""
+        if not v.byte:
+            self.ret_byte = False       # (some returned value is not known to consist of bytes)
+        return self.ret_raw(self.result_term(v, env))
 
-    def assigned(self, stmts):
+    def k_end(self, env):
+        return self.ret(Val('()', NONE, const=None), env)     # falling off the end returns None
+
+    def assigned(self, stmts, updates=True):
+        """the locals `stmts` may rebind: assignment targets, and (with `updates`) sequences updated in place, with
+        everything they may be aliases of"""
         names = set()
         for s in stmts:
             if isinstance(s, ast.Assign):
@@ -889,18 +1868,34 @@ class FnTranslator:
             elif isinstance(s, ast.AugAssign) and isinstance(s.target, ast.Name):
                 names.add(s.target.id)
             elif isinstance(s, ast.If):
-                names |= self.assigned(s.body) | self.assigned(s.orelse)
-            elif isinstance(s, ast.For):
-                names |= self.assigned(s.body)
+                names |= self.assigned(s.body, False) | self.assigned(s.orelse, False)
+            elif isinstance(s, (ast.For, ast.While)):
+                names |= self.assigned(s.body, False)
+            elif isinstance(s, ast.Try):
+                names |= self.assigned(s.body, False)
+                for h in s.handlers:
+                    names |= self.assigned(h.body, False)
+        upd = self.direct_updates(stmts) if updates else set()
+        if upd:
+            closed = set(upd)
+            changed = True
+            while changed:          # what the updated names may be aliases of
+                changed = False
+                for x in list(closed):
+                    for b in self.links.get(x, ()):
+                        if b not in closed:
+                            closed.add(b)
+                            changed = True
+            names |= closed
         return names
 
     def let(self, name, v, env, cont, pyname):
         """bind the pure value v to the local `pyname` (atoms are substituted, everything else is let-bound)"""
-        atom = v.is_const or v.term.replace("'", '').replace('_', '').replace('«', '').replace('»', '').isalnum()
+        atom = v.is_const or v.term.replace("'", '').replace('_', '').replace('«', '').replace('»', '').isalnum() or v.ty == EMPTYLIST
         if atom:
             return cont({**env, pyname: v})
         x = self.fresh(pyname)
-        return f'(let {x} := {v.term};\n{cont({**env, pyname: Val(x, v.ty)})})'
+        return f'(let {x} := {v.term};\n{cont({**env, pyname: v.renamed(x)})})'
 
     def assign_targets(self, target, v, env, cont):
         if isinstance(target, ast.Name):
@@ -908,6 +1903,14 @@ class FnTranslator:
         if isinstance(target, ast.Tuple) and all(isinstance(t, ast.Name) for t in target.elts) \
                 and isinstance(v.ty, tuple) and v.ty[0] == 'tuple' and len(v.ty) - 1 == len(target.elts):
             n = len(target.elts)
+            if v.elts is not None and len(v.elts) == n and any(c.ty == EMPTYLIST for c in v.elts):
+                # a tuple display with `[]` components (whose element type is not known yet): its components are already
+                # evaluated; bind them one by one (simultaneous assignment)
+                def go_elts(i, env2):
+                    if i == n:
+                        return cont(env2)
+                    return self.let(None, v.elts[i], env2, lambda e3: go_elts(i + 1, e3), target.elts[i].id)
+                return go_elts(0, env)
             whole = self.fresh('tup')
 
             def go(i, env2):
@@ -916,6 +1919,138 @@ class FnTranslator:
                 return self.let(None, Val(proj(whole, i, n), v.ty[1 + i]), env2, lambda e3: go(i + 1, e3), target.elts[i].id)
             return f'(let {whole} := {v.term};\n{go(0, env)})'
         raise Untranslatable(f'assignment target {ast.unparse(target)}')
+
+    # ------------------------------------------------------------ subscript targets (in-place updates)
+    def lvalue(self, tgt, env, ctx):
+        """evaluates the container / index expressions of the subscript target `tgt` (in Python's order) and returns
+        (load, store): `load()` reads the element, `store(v)` records the update of the underlying local"""
+        X, sl = tgt.value, tgt.slice
+        if ast.unparse(tgt) in self.opaque or ast.unparse(X) in self.opaque:
+            raise Untranslatable('store into an opaque expression')
+        row_of = None           # (base name, index term) when the target is an element / a slice of a row of `base`
+        if isinstance(X, ast.Name):
+            cur = self.lookup(X.id, env, ctx)
+            if cur is None:
+                raise Untranslatable(f'{X.id} is not available here')
+            if cur.view is not None:
+                row_of = cur.view
+            elif not is_seq(cur.ty):
+                raise Untranslatable(f'store into a {cur.ty}')
+            name = X.id
+        elif isinstance(X, ast.Subscript) and isinstance(X.value, ast.Name) and not isinstance(X.slice, ast.Slice):
+            b = self.lookup(X.value.id, env, ctx)
+            if b is None or b.view is not None or not (isinstance(b.ty, tuple) and b.ty[0] == 'list' and is_seq(b.ty[1])):
+                raise Untranslatable(f'store into {ast.unparse(X)}')
+            i = self.ex(X.slice, env, ctx)
+            if i.ty != INT:
+                raise Untranslatable(f'index of type {i.ty}')
+            if not (i.is_const or i.term.replace("'", '').replace('_', '').isalnum()):
+                i = self.let_bind(ctx, i.term, INT, base='i')
+            row_of = (X.value.id, i.term)
+        else:
+            raise Untranslatable(f'assignment target {ast.unparse(tgt)}')
+        if row_of is not None:
+            base = row_of[0]
+            bty = self.lookup(base, env, ctx).ty
+            rty = bty[1]
+        else:
+            rty = cur.ty
+
+        def base_term():
+            return self.lookup(base, env, ctx).term
+
+        def row_check():
+            # Python looks the row up before it evaluates anything else of the target
+            self.bind(ctx, f'(Py.index {base_term()} {row_of[1]})', rty)
+        n0 = len(ctx.binds)
+        if isinstance(sl, ast.Slice):
+            lo, hi = self.slice_bounds(sl, env, ctx)
+            if row_of is not None and len(ctx.binds) > n0:
+                raise Untranslatable('slice bounds that can raise in a store into a row')
+
+            def load():
+                raise Untranslatable('augmented assignment to a slice')
+
+            def store(v):
+                ys = self.to_list(v)
+                if elem_ty(ys.ty) != elem_ty(rty):
+                    raise Untranslatable(f'slice assignment of a {ys.ty} into a {rty}')
+                if row_of is not None:
+                    if rty in (BYTEARRAY, BUFFER) and not ys.byte:
+                        row_check()
+                        self.check_bytes(rty, ys, ctx)
+                    self.check_updatable(base)
+                    t = self.bind(ctx, f'(Py.setSlice2 {base_term()} {row_of[1]} {lo} {hi} {ys.term})', bty)
+                    if ctx.conditional:
+                        raise Untranslatable('an in-place update inside a conditionally evaluated expression')
+                    ctx.updates[base] = t
+                else:
+                    self.check_bytes(rty, ys, ctx)
+                    self.update(name, Val(f'(Py.setSlice {self.lookup(name, env, ctx).term} {lo} {hi} {ys.term})', rty), env, ctx)
+            return load, store
+        j = self.ex(sl, env, ctx)
+        if j.ty != INT:
+            raise Untranslatable(f'index of type {j.ty}')
+        if row_of is not None and len(ctx.binds) > n0:
+            raise Untranslatable('an index that can raise in a store into a row')
+        if not (j.is_const or j.term.replace("'", '').replace('_', '').isalnum()):
+            j = self.let_bind(ctx, j.term, INT, base='j')
+
+        def load():
+            if row_of is not None:
+                r = self.bind(ctx, f'(Py.index {base_term()} {row_of[1]})', rty)
+                return self.bind(ctx, f'(Py.index {r.term} {j.term})', elem_ty(rty), byte=r.byte)
+            c = self.lookup(name, env, ctx)
+            return self.bind(ctx, f'(Py.index {c.term} {j.term})', elem_ty(rty), byte=c.byte)
+
+        def store(v):
+            v = self.coerce(v, elem_ty(rty))
+            if row_of is not None:
+                if rty in (BYTEARRAY, BUFFER) and not v.byte:
+                    row_check()
+                    self.check_bytes(rty, v, ctx)
+                self.check_updatable(base)
+                if ctx.conditional:
+                    raise Untranslatable('an in-place update inside a conditionally evaluated expression')
+                ctx.updates[base] = self.bind(ctx, f'(Py.setItem2 {base_term()} {row_of[1]} {j.term} {v.term})', bty)
+            else:
+                self.check_bytes(rty, v, ctx)
+                t = self.bind(ctx, f'(Py.setItem {self.lookup(name, env, ctx).term} {j.term} {v.term})', rty)
+                self.update(name, t, env, ctx)
+        return load, store
+
+    def check_rebind(self, name, env):
+        """a plain assignment to `name`: refused while views / bound methods of the old value are alive"""
+        for k, v in env.items():
+            if k != name and ((v.view is not None and v.view[0] == name) or (v.bound is not None and v.bound[0] == name)):
+                raise Untranslatable(f'{name} is rebound while {k} still refers to its old value')
+
+    def special_assign(self, name, value, env, ctx):
+        """right-hand sides that make `name` a view of a row / a bound method / an iterator; None otherwise"""
+        if ast.unparse(value) in self.opaque:
+            return None
+        if isinstance(value, ast.Subscript) and not isinstance(value.slice, ast.Slice) and isinstance(value.value, ast.Name):
+            b = self.lookup(value.value.id, env, ctx)
+            if b is not None and b.view is None and isinstance(b.ty, tuple) and b.ty[0] == 'list' and is_seq(b.ty[1]) \
+                    and (name in self.inplace or value.value.id in self.inplace):
+                i = self.ex(value.slice, env, ctx)
+                if i.ty != INT:
+                    raise Untranslatable(f'index of type {i.ty}')
+                if not (i.is_const or i.term.replace("'", '').replace('_', '').isalnum()):
+                    i = self.let_bind(ctx, i.term, INT, base='i')
+                self.bind(ctx, f'(Py.index {b.term} {i.term})', b.ty[1])      # IndexError now, not at the first use
+                return Val(None, b.ty[1], view=(value.value.id, i.term))
+        if isinstance(value, ast.Attribute) and isinstance(value.value, ast.Name):
+            b = self.lookup(value.value.id, env, ctx)
+            if b is not None and b.fields is None and (b.view is not None or is_seq(b.ty)):
+                return Val(None, NONE, bound=(value.value.id, value.attr))
+        if isinstance(value, ast.Name):
+            y = self.lookup(value.id, env, ctx)
+            if y is not None and (y.view is not None or y.bound is not None):
+                return y
+            if y is not None and is_seq(y.ty) and (name in self.inplace or value.id in self.inplace):
+                raise Untranslatable(f'{name} = {value.id}: two names for a sequence that is updated in place')
+        return None
 
     def block(self, stmts, env, k):
         self.size += 1
@@ -933,18 +2068,28 @@ class FnTranslator:
             if isinstance(s.value, ast.Call):
                 ctx = Ctx()
                 self.ex(s.value, env, ctx)
-                return seal(ctx.binds, cont(env)) if ctx.binds else cont(env)
+                return seal(ctx.binds, cont(self.apply(env, ctx))) if ctx.binds else cont(self.apply(env, ctx))
             raise Untranslatable(f'expression statement {ast.unparse(s)[:50]}')
         if isinstance(s, ast.Pass):
             return cont(env)
+        if isinstance(s, ast.FunctionDef):
+            ent = self.registry.get(s.name)
+            if ent is not None and ent.get('nested_in') == (self.spec['module'], tuple(self.spec['path'])):
+                return cont(env)          # a nested function that is translated on its own (closure read at the call)
+            raise Untranslatable(f'nested function {s.name} is not translated')
         if isinstance(s, ast.Return):
-            if self.loop_depth:
-                raise Untranslatable('return inside a range loop')
             if self.phi_depth:
                 raise _PhiFail('return')
             ctx = Ctx()
             v = Val('()', NONE, const=None) if s.value is None else self.ex(s.value, env, ctx)
-            return seal(ctx.binds, self.ret(v)) if ctx.binds else self.ret(v)
+            r = self.ret(v, self.apply(env, ctx))
+            return seal(ctx.binds, r) if ctx.binds else r
+        if isinstance(s, (ast.Break, ast.Continue)):
+            if self.phi_depth:
+                raise _PhiFail('break / continue')
+            if not self.loops:
+                raise Untranslatable('break / continue outside a loop')
+            return self.loops[-1]['brk' if isinstance(s, ast.Break) else 'next'](env)
         if isinstance(s, ast.Raise):
             if s.exc is None or s.cause is not None:
                 raise Untranslatable('bare raise / raise from')
@@ -957,26 +2102,52 @@ class FnTranslator:
             ctx = Ctx()
             c = self.ex_truth(s.test, env, ctx)
             self.need_monad('assert')
-            body = cont(env) if (c.is_const and c.const) else f'(if {c.term} then\n{ind(cont(env))}\nelse {err("assertionError")})'
+            env2 = self.apply(env, ctx)
+            body = cont(env2) if (c.is_const and c.const) else f'(if {c.term} then\n{ind(cont(env2))}\nelse {err("assertionError")})'
             return seal(ctx.binds, body)
         if isinstance(s, ast.Assign):
             if len(s.targets) != 1:
                 raise Untranslatable('chained assignment')
+            tgt = s.targets[0]
             ctx = Ctx()
+            if isinstance(tgt, ast.Name):
+                sp = self.special_assign(tgt.id, s.value, env, ctx)
+                if sp is not None:
+                    self.check_rebind(tgt.id, env)
+                    return seal(ctx.binds, cont({**self.apply(env, ctx), tgt.id: sp}))
             v = self.ex(s.value, env, ctx)
-            return seal(ctx.binds, self.assign_targets(s.targets[0], v, env, cont))
+            if isinstance(tgt, ast.Subscript):
+                _, store = self.lvalue(tgt, env, ctx)
+                store(v)
+                return seal(ctx.binds, cont(self.apply(env, ctx)))
+            for t in ([tgt] if isinstance(tgt, ast.Name) else tgt.elts if isinstance(tgt, ast.Tuple) else []):
+                if isinstance(t, ast.Name):
+                    self.check_rebind(t.id, env)
+            return seal(ctx.binds, self.assign_targets(tgt, v, self.apply(env, ctx), cont))
         if isinstance(s, ast.AugAssign):
+            ctx = Ctx()
+            if isinstance(s.target, ast.Subscript):
+                load, store = self.lvalue(s.target, env, ctx)
+                cur = load()
+                tmp = '_aug_tmp_'
+                v = self.ex(ast.BinOp(left=ast.Name(id=tmp, ctx=ast.Load()), op=s.op, right=s.value), {**env, tmp: cur}, ctx)
+                store(v)
+                return seal(ctx.binds, cont(self.apply(env, ctx)))
             if not isinstance(s.target, ast.Name):
                 raise Untranslatable('augmented assignment to a non-name')
-            ctx = Ctx()
+            tv = self.lookup(s.target.id, env, ctx)
+            if tv is not None and (tv.view is not None or is_seq(tv.ty)):
+                raise Untranslatable('augmented assignment to a sequence')
             v = self.ex(ast.BinOp(left=ast.Name(id=s.target.id, ctx=ast.Load()), op=s.op, right=s.value), env, ctx)
-            return seal(ctx.binds, self.let(None, v, env, cont, s.target.id))
+            return seal(ctx.binds, self.let(None, v, self.apply(env, ctx), cont, s.target.id))
         if isinstance(s, ast.If):
             return self.if_stmt(s.test, s.body, s.orelse, env, cont)
         if isinstance(s, ast.Try):
             return self.try_stmt(s, env, cont)
         if isinstance(s, ast.For):
             return self.for_stmt(s, env, cont)
+        if isinstance(s, ast.While):
+            return self.while_stmt(s, env, cont)
         raise Untranslatable(f'statement {type(s).__name__}')
 
     def if_stmt(self, test, then, orelse, env, cont):
@@ -1022,6 +2193,7 @@ class FnTranslator:
             return f'(match {env[name].term} with\n  | none =>\n{ind(a, 4)}\n  | some {x} =>\n{ind(b, 4)})'
         ctx = Ctx()
         c = self.ex_truth(test, env, ctx)
+        env = self.apply(env, ctx)
         if c.is_const:
             return seal(ctx.binds, branch(then if c.const else orelse, env))
         phi = None if ctx.binds else self.phi(c, then, orelse, env, cont)
@@ -1037,6 +2209,8 @@ class FnTranslator:
 
         def k(env2):
             vs = [env2[n] for n in names]
+            if any(v.view is not None or v.bound is not None or v.fields is not None for v in vs):
+                raise _PhiFail('view')
             types.append([v.ty for v in vs])
             if want is not None:
                 vs = [self.coerce(v, t) for v, t in zip(vs, want)]
@@ -1050,6 +2224,13 @@ class FnTranslator:
         names = sorted(self.assigned(then) | self.assigned(orelse))
         if not names or any(n not in env for n in names):
             return None
+        if any(env[n].view is not None or env[n].bound is not None for n in names):
+            rebound = self.assigned(then, False) | self.assigned(orelse, False)
+            if any(n in rebound for n in names if env[n].view is not None or env[n].bound is not None):
+                return None
+            names = [n for n in names if env[n].view is None and env[n].bound is None]
+            if not names:
+                return None
         saved = (dict(self.counter), self.size)
         self.phi_depth += 1
         try:
@@ -1126,27 +2307,32 @@ class FnTranslator:
         finally:
             self.noraise = saved_flag
         # (b) / (c): a single `return E` or `x = E`
-        if len(s.body) != 1 or not isinstance(s.body[0], (ast.Return, ast.Assign)):
-            raise Untranslatable('try body that can raise and is not a single return / assignment')
+        if len(s.body) != 1 or not isinstance(s.body[0], (ast.Return, ast.Assign)) \
+                or (isinstance(s.body[0], ast.Assign) and not isinstance(s.body[0].targets[0], (ast.Name, ast.Tuple))):
+            return self.try_general(s, catches, env, cont)
         st = s.body[0]
-        if self.loop_depth or self.phi_depth:
+        if self.phi_depth:
             self.need_monad('try')
         ctx = Ctx()
         if isinstance(st, ast.Return):
             v = Val('()', NONE, const=None) if st.value is None else self.ex(st.value, env, ctx)
-            v = self.coerce(v, self.ret_ty)
+            if ctx.updates:
+                raise Untranslatable('an in-place update inside a try body')
+            v = Val(self.result_term(v, env), self.ret_ty)
             vty = self.ret_ty
 
             def success(x):
-                return ok(x)
+                return self.ret_raw(x)
         else:
             if len(st.targets) != 1:
                 raise Untranslatable('chained assignment')
             v = self.ex(st.value, env, ctx)
             vty = v.ty
+            if ctx.updates:
+                raise Untranslatable('an in-place update inside a try body')
 
             def success(x):
-                return self.assign_targets(st.targets[0], Val(x, vty), env, cont)
+                return self.assign_targets(st.targets[0], v.renamed(x), env, cont)
         self.need_monad('try')
         m = seal(ctx.binds, ok(v.term))
 
@@ -1167,88 +2353,264 @@ class FnTranslator:
         return (f'(Py.tryExcept ({m} : M {lean_ty(vty)})\n  (fun {x} =>\n{ind(success(x), 4)})\n'
                 f"  (fun exc'0 =>\n{ind(arms, 4)}))")
 
+    def try_general(self, s, catches, env, cont):
+        """a try body of several statements (assignments, `if`, `return`, calls …): the body yields how it ends
+        (`Step.next` with the locals it assigned / `Step.ret`), only exceptions raised inside it reach the handlers.
+        In the handlers (and after them) the locals the body assigns are not available: Python may have assigned
+        some of them before the exception was raised."""
+        self.need_monad('try')
+        names = self.state_names(s.body, env)
+        types = [self.state_type(n, env) for n in names]
+        saved = (dict(self.counter), self.size)
+        while True:
+            loop = dict(monadic=True, kind='try')
+
+            def k_next(env2, types=types):
+                return ok(f'(Py.Step.next {self.state_term(names, types, env2)})')
+
+            def k_brk(env2):
+                raise Untranslatable('break / continue inside a try body')
+            loop['next'], loop['brk'] = k_brk, k_brk
+            self.loops.append(loop)
+            try:
+                body = self.block(s.body, env, k_next)
+                break
+            except _Widen as w:
+                if w.name not in names:
+                    raise
+                types[names.index(w.name)] = w.ty
+                self.counter, self.size = dict(saved[0]), saved[1]
+            finally:
+                self.loops.pop()
+        sty = self.state_lean_ty(types)
+        st, sv, rv = self.fresh('st'), self.fresh('s'), self.fresh('r')
+        after = self.rebind_state(names, types, sv, env, cont)
+        env_h = {k2: v for k2, v in env.items() if k2 not in set(self.assigned(s.body))}
+        arms = ''
+        for caught, hbody in catches:
+            test = ' || '.join(f"exc'0 == PyExc.{c}" for c in caught)
+            arms += f'if {test} then\n{ind(self.block(hbody, env_h, cont))}\nelse '
+        arms += "Except.error exc'0"
+        return (f'(Py.tryExcept ({body} : M (Py.Step {sty} {lean_ty(self.ret_ty)}))\n  (fun {st} =>\n'
+                f'    match {st} with\n    | .next {sv} =>\n{ind(after, 6)}\n    | .brk {sv} =>\n{ind(after, 6)}\n'
+                f'    | .ret {rv} => {self.ret_raw(rv)})\n'
+                f"  (fun exc'0 =>\n{ind(arms, 4)}))")
+
+    # ------------------------------------------------------------ loops
+    def state_names(self, body, env, excluded=()):
+        """the locals of `env` that `body` may rebind and that therefore are the state of a loop / try body; views and
+        bound methods are not state (the sequence they refer to is) and must not be rebound in the body"""
+        rebound = self.assigned(body, False)
+        names = []
+        for n in sorted(self.assigned(body)):
+            if n not in env or n in excluded:
+                continue
+            v = env[n]
+            if v.view is not None or v.bound is not None or v.fields is not None:
+                if n in rebound:
+                    raise Untranslatable(f'{n} (a view / bound method) is rebound inside a loop or try body')
+                continue
+            names.append(n)
+        return names
+
+    def state_type(self, n, env):
+        return env[n].ty
+
+    def state_term(self, names, types, env2):
+        vs = []
+        for n, t in zip(names, types):
+            v = env2.get(n)
+            if v is None or v.view is not None or v.bound is not None:
+                raise Untranslatable(f'{n} is not a plain value at the end of a loop / try body')
+            if v.ty != t:
+                j = join_types(v.ty, t)
+                if j is None:
+                    raise Untranslatable(f'{n} changes its type from {t} to {v.ty} inside a loop / try body')
+                if j != t:
+                    raise _Widen(n, j)
+                v = self.coerce(v, t)
+            vs.append(v.term)
+        return tuple_term(vs) if vs else '()'
+
+    @staticmethod
+    def state_lean_ty(types):
+        return 'Unit' if not types else lean_ty(TUPLE(*types)) if len(types) > 1 else lean_ty(types[0])
+
+    def rebind_state(self, names, types, value, env, cont):
+        if not names:
+            return cont(env)
+        return self.rebind(names, types, value, env, cont)
+
+    def loop_body(self, s_body, env, names, types, acc, form, extra_env):
+        """translate a loop body over the state `names` (read from the tuple `acc`); `form` ∈ fold / foldM / forP / forM"""
+        n = len(names)
+        env_body = dict(env)
+        for k, nm in enumerate(names):
+            env_body[nm] = Val(proj(acc, k, n), types[k])
+        env_body.update(extra_env)
+        monadic = form in ('foldM', 'forM')
+        steps = form in ('forP', 'forM')
+
+        def wrap(t):
+            return ok(t) if monadic else t
+
+        def k_next(env2):
+            st = self.state_term(names, types, env2)
+            return wrap(f'(Py.Step.next {st})' if steps else st)
+
+        def k_brk(env2):
+            return wrap(f'(Py.Step.brk {self.state_term(names, types, env2)})')
+        self.loops.append(dict(monadic=monadic, kind='loop', next=k_next, brk=k_brk))
+        try:
+            return self.block(s_body, env_body, k_next)
+        finally:
+            self.loops.pop()
+
+    @staticmethod
+    def has_exit(body):
+        """does the loop body contain `break` (of this loop) or `return`?"""
+        def walk(stmts, inner):
+            for st in stmts:
+                if isinstance(st, ast.Return):
+                    return True
+                if isinstance(st, ast.Break) and not inner:
+                    return True
+                if isinstance(st, (ast.For, ast.While)):
+                    if walk(st.body, True):
+                        return True
+                elif isinstance(st, ast.If):
+                    if walk(st.body, inner) or walk(st.orelse, inner):
+                        return True
+                elif isinstance(st, ast.Try):
+                    if walk(st.body, inner) or any(walk(h.body, inner) for h in st.handlers):
+                        return True
+            return False
+        return walk(body, False)
+
+    def run_loop(self, s_body, env, cont, ctx, src, pat, extra_env, excluded, always_monadic=False, fuel=None):
+        """common part of `for` and `while`: the locals the body rebinds become the loop state"""
+        exits = self.has_exit(s_body) or fuel is not None
+        names = self.state_names(s_body, env, excluded)
+        types = [self.state_type(n, env) for n in names]
+        acc = self.fresh('acc')
+        saved = (dict(self.counter), self.size)
+        level = len(self.loops) + 1
+        monadic = always_monadic
+        while True:
+            form = ('forM' if monadic else 'forP') if exits else ('foldM' if monadic else 'fold')
+            try:
+                body = self.loop_body(s_body, env, names, types, acc, form, extra_env)
+                break
+            except _Widen as w:
+                if w.name not in names:
+                    raise
+                types[names.index(w.name)] = w.ty
+            except _NeedMonad as ex:
+                if ex.level != level or monadic:
+                    raise
+                monadic = True
+            self.counter, self.size = dict(saved[0]), saved[1]
+        if monadic:
+            self.need_monad('loop')          # the enclosing context must be able to raise as well
+        init = tuple_term([self.coerce(env[nm], t).term for nm, t in zip(names, types)]) if names else '()'
+        sty = self.state_lean_ty(types)
+        rty = lean_ty(self.ret_ty)
+        env_after = {k2: v for k2, v in env.items() if k2 not in excluded}
+        if form == 'fold':
+            value = f'(({src}).foldl (fun ({acc} : {sty}) {pat} =>\n{ind(body, 4)}) {init})'
+            return seal(ctx.binds, self.rebind_state(names, types, value, env_after, cont))
+        if form == 'foldM':
+            st = self.fresh('st')
+            m = f'(Py.foldlM {src} {init} (fun ({acc} : {sty}) {pat} =>\n{ind(f"({body} : M {sty})", 4)}))'
+            return seal(ctx.binds, BIND_RAW(st, m, sty, self.rebind_state(names, types, st, env_after, cont)))
+        d, sv, rv = self.fresh('d'), self.fresh('s'), self.fresh('r')
+        after = self.rebind_state(names, types, sv, env_after, cont)
+        match = f'(match {d} with\n  | .fin {sv} =>\n{ind(after, 4)}\n  | .ret {rv} => {self.ret_raw(rv)})'
+        if fuel is not None:
+            m = f'(Py.whileM ({fuel}).toNat {init} (fun ({acc} : {sty}) =>\n{ind(f"({body} : M (Py.Step {sty} {rty}))", 4)}))'
+            return seal(ctx.binds, BIND_RAW(d, m, f'(Py.Done {sty} {rty})', match))
+        if form == 'forM':
+            m = f'(Py.forM {src} {init} (fun ({acc} : {sty}) {pat} =>\n{ind(f"({body} : M (Py.Step {sty} {rty}))", 4)}))'
+            return seal(ctx.binds, BIND_RAW(d, m, f'(Py.Done {sty} {rty})', match))
+        value = f'(Py.forP {src} {init} (fun ({acc} : {sty}) {pat} =>\n{ind(f"({body} : Py.Step {sty} {rty})", 4)}))'
+        return seal(ctx.binds, f'(let {d} : Py.Done {sty} {rty} := {value};\n{match})')
+
+    def while_stmt(self, s, env, cont):
+        if s.orelse:
+            raise Untranslatable('while … else')
+        src = ast.unparse(s.test)
+        if src not in self.fuel:
+            raise Untranslatable(f'while {src[:40]}: no fuel declared for this loop')
+        self.need_monad('while')
+        ctx = Ctx()
+        fuel = self.ex(ast.parse(self.fuel[src], mode='eval').body, env, ctx)
+        if fuel.ty != INT:
+            raise Untranslatable('fuel of a while loop must be an integer expression')
+        body = [ast.If(test=s.test, body=s.body, orelse=[ast.Break()])]
+        return self.run_loop(body, env, cont, ctx, None, None, {}, set(), always_monadic=True, fuel=fuel.term)
+
     def for_stmt(self, s, env, cont):
         if s.orelse:
             raise Untranslatable('for … else')
-        for node in ast.walk(ast.Module(body=s.body, type_ignores=[])):
-            if isinstance(node, (ast.Break, ast.Continue)):
-                raise Untranslatable('break / continue')
         it = s.iter
+        own_break = any(isinstance(n, (ast.Break, ast.Continue)) for n in ast.walk(ast.Module(body=s.body, type_ignores=[])))
         # (1) loop over a module-level constant (tuple / dict.items() / .values() / .keys()): unrolled
-        if not (isinstance(it, ast.Call) and isinstance(it.func, ast.Name) and it.func.id == 'range'):
+        if not (isinstance(it, ast.Call) and isinstance(it.func, ast.Name) and it.func.id == 'range') and not own_break:
             items = None
-            if isinstance(it, ast.Call) and isinstance(it.func, ast.Attribute) and not it.args and not it.keywords \
-                    and it.func.attr in ('items', 'values', 'keys'):
-                d = self.ex(it.func.value, env, Ctx())
-                if d.is_const and isinstance(d.const, dict):
-                    items = list(getattr(d.const, it.func.attr)())
-            else:
-                c = self.ex(it, env, Ctx())
-                if c.is_const and isinstance(c.const, (tuple, list, dict, bytes)):
-                    items = list(c.const)
-            if items is None:
-                raise Untranslatable(f'loop over {ast.unparse(it)[:40]}')
-            if len(items) > 16:
-                raise Untranslatable(f'loop over a constant with {len(items)} > 16 entries')
+            saved = (dict(self.counter), self.size)
+            try:
+                if isinstance(it, ast.Call) and isinstance(it.func, ast.Attribute) and not it.args and not it.keywords \
+                        and it.func.attr in ('items', 'values', 'keys'):
+                    d = self.ex(it.func.value, env, Ctx())
+                    if d.is_const and isinstance(d.const, dict):
+                        items = list(getattr(d.const, it.func.attr)())
+                else:
+                    c = self.ex(it, env, Ctx())
+                    if c.is_const and isinstance(c.const, (tuple, list, dict, bytes)):
+                        items = list(c.const)
+            except (_NeedMonad, _CanRaise, _PhiFail):
+                items = None
+            if items is not None and len(items) > 16:
+                items = None
             targets = [s.target] if isinstance(s.target, ast.Name) else list(s.target.elts) if isinstance(s.target, ast.Tuple) else None
             if targets is None or not all(isinstance(t, ast.Name) for t in targets):
                 raise Untranslatable('loop target')
-
-            def unroll(i, env2):
-                if i == len(items):
-                    return cont(env2)
-                item = items[i]
-                vals = [item] if isinstance(s.target, ast.Name) else list(item)
-                if len(vals) != len(targets):
-                    raise Untranslatable('loop target arity')
-                env3 = dict(env2)
-                for t, v in zip(targets, vals):
-                    if isinstance(v, (tuple, list, dict)):
-                        raise Untranslatable('loop over nested constants')
-                    env3[t.id] = self.const_val(t.id, v)
-                return self.block(s.body, env3, lambda e4: unroll(i + 1, e4))
-            return unroll(0, env)
-        # (2) for i in range(…): a fold over the locals the body assigns
-        if it.keywords or not 1 <= len(it.args) <= 3 or not isinstance(s.target, ast.Name):
-            raise Untranslatable('range loop shape')
+            if items is not None and any(isinstance(v, (tuple, list, dict)) for item in items
+                                         for v in ([item] if isinstance(s.target, ast.Name) else list(item))):
+                items = None
+            if items is not None:
+                def unroll(i, env2):
+                    if i == len(items):
+                        return cont(env2)
+                    item = items[i]
+                    vals = [item] if isinstance(s.target, ast.Name) else list(item)
+                    if len(vals) != len(targets):
+                        raise Untranslatable('loop target arity')
+                    env3 = dict(env2)
+                    for t, v in zip(targets, vals):
+                        env3[t.id] = self.const_val(t.id, v)
+                    return self.block(s.body, env3, lambda e4: unroll(i + 1, e4))
+                return unroll(0, env)
+            self.counter, self.size = dict(saved[0]), saved[1]
+        # (2) the general form: a fold (with early exit) over the locals the body rebinds
         ctx = Ctx()
-        args = [self.ex(a, env, ctx) for a in it.args]
-        if any(a.ty != INT for a in args):
-            raise Untranslatable('range of non-integers')
-        if len(args) == 1:
-            rng = f'(Py.range (0 : Int) {args[0].term})'
-        elif len(args) == 2:
-            rng = f'(Py.range {args[0].term} {args[1].term})'
-        else:
-            if not (args[2].is_const and args[2].const > 0):
-                raise Untranslatable('range step that is not a positive literal')
-            rng = f'(Py.rangeStep {args[0].term} {args[1].term} {args[2].const})'
-        names = sorted(self.assigned(s.body))
-        if s.target.id in names:
+        xs = self.seq_arg(it, env, ctx)
+        if ctx.updates:
+            raise Untranslatable('an in-place update in the iterable of a loop')
+        root = self.root_name(it.func.value if isinstance(it, ast.Call) and isinstance(it.func, ast.Attribute) else
+                              it.args[0] if isinstance(it, ast.Call) and it.args and not isinstance(it.args[0], ast.Starred) else it)
+        if root is not None and root in self.close(self.direct_updates(s.body, consumers=False)):
+            raise Untranslatable(f'the loop iterates over {root}, which its body updates in place')
+        targets = [s.target] if isinstance(s.target, ast.Name) else list(s.target.elts) if isinstance(s.target, ast.Tuple) else []
+        tnames = {t.id for t in targets if isinstance(t, ast.Name)}
+        if tnames & self.assigned(s.body):
             raise Untranslatable('loop variable assigned in the body')
-        if not names:
-            raise Untranslatable('range loop without accumulator')
-        if any(n not in env for n in names):
-            raise Untranslatable('a local first assigned inside a loop body')
-        types = [env[n].ty for n in names]
-        acc = self.fresh('acc')
-        i = self.fresh(s.target.id)
-        env_body = dict(env)
-        n = len(names)
-        for k, nm in enumerate(names):
-            env_body[nm] = Val(proj(acc, k, n), types[k])
-        env_body[s.target.id] = Val(i, INT)
-        self.loop_depth += 1
-        try:
-            body, got = self.tuple_body(s.body, env_body, names, types)
-        finally:
-            self.loop_depth -= 1
-        init = tuple_term([env[nm].term for nm in names])
-        acc_ty = lean_ty(TUPLE(*types)) if n > 1 else lean_ty(types[0])
-        value = f'(({rng}).foldl (fun ({acc} : {acc_ty}) ({i} : Int) =>\n{ind(body, 4)}) {init})'
+        pat, env_t = self.bind_target(s.target, elem_ty(xs.ty), {}, byte=xs.byte)
+        if isinstance(s.target, ast.Name):
+            pat = f'({env_t[s.target.id].term} : {lean_ty(elem_ty(xs.ty))})'
+        src = xs.term
         # the loop variable keeps its last value in Python; it is not available afterwards here
-        env_after = {k2: v for k2, v in env.items() if k2 != s.target.id}
-        return seal(ctx.binds, self.rebind(names, types, value, env_after, cont))
+        return self.run_loop(s.body, env, cont, ctx, src, pat, env_t, tnames)
 
     # ------------------------------------------------------------ the whole function
     def translate(self):
@@ -1259,6 +2621,13 @@ class FnTranslator:
         for nm, ty in list(spec.get('closure', {}).items()) + list(spec['params'].items()):
             if isinstance(ty, CONST):
                 env[nm] = self.const_val(nm, ty.value)
+            elif isinstance(ty, tuple) and ty[0] == 'obj':
+                fields = {}
+                for fnm, fty in ty[1]:
+                    pname = 'n_' + nm if fnm == '__len__' else fnm
+                    params.append((pname, fty))
+                    fields[fnm] = Val(lean_name(pname), fty)
+                env[nm] = Val(None, ty, fields=fields)
             else:
                 params.append((nm, ty))
                 env[nm] = Val(lean_name(nm), ty)
@@ -1275,13 +2644,15 @@ class FnTranslator:
         if declared != want:
             raise Untranslatable(f'parameters are {declared}, the translation is specified for {want}')
         for mode in (False, True):
-            self.monadic, self.counter, self.size = mode, {}, 0
+            self.monadic, self.counter, self.size, self.loops, self.ret_byte = mode, {}, 0, [], not self.mutates
             try:
                 term = self.block(self.fn.body, env, self.k_end)
                 break
             except _NeedMonad:
                 if mode:
                     raise Untranslatable('internal: monadic translation asked for a monad')
+            except _Widen as w:
+                raise Untranslatable(f'internal: type of {w.name} widened outside a loop')
         sig = ' '.join(f'({lean_name(nm)} : {lean_ty(ty)})' for nm, ty in params)
         rty = lean_ty(self.ret_ty)
         return params, sig, (f'M {rty}' if self.monadic else rty), term, self.monadic
@@ -1324,7 +2695,9 @@ def literal_defaults(fn):
 
 
 class Translation:
-    """translates a list of specs; collects the Lean text of the functions, the tables and the validation file"""
+    """translates a list of specs; collects the Lean text of the functions, the tables and the validation file.
+    `part` of a spec (1 = Gen/Funcs.lean, 2 = Gen/Funcs2.lean) says where the definition, the tables it is the first
+    to use and its validation examples go."""
 
     def __init__(self, modules, trees, module_aliases):
         self.modules, self.trees, self.aliases = modules, trees, module_aliases
@@ -1333,12 +2706,18 @@ class Translation:
         self.defs = []        # (name, lean text)
         self.checks = []      # lean text
         self.report = []      # (name, 'ok' | reason)
+        self.part_of_def = {}
+        self.part_of_check = []
+        self.part_of_table = {}
 
     def add(self, spec):
         name = spec['name']
         mod = spec['module']
+        part = spec.get('part', 1)
         lean = lean_name(name)
         doc = [f'`{mod}.{".".join(spec["path"])}`']
+        ntab = len(self.tables.order)
+        self.part_of_def[name] = part
         try:
             fn = find_function(self.trees[mod], spec['path'])
             tr = FnTranslator(spec, self.modules[mod], fn, self.registry, self.tables, self.aliases[mod])
@@ -1347,38 +2726,66 @@ class Translation:
             doc.append(f'translated for {dom} -> {describe(spec["ret"])}' + (' (can raise)' if monadic else ''))
             for src, (nm, ty) in spec.get('opaque', {}).items():
                 doc.append(f'parameter `{nm}` stands for the value of `{src}`')
+            for nm, ty in spec['params'].items():
+                if isinstance(ty, tuple) and ty[0] == 'obj':
+                    for fnm, fty in ty[1]:
+                        pname = 'n_' + nm if fnm == '__len__' else fnm
+                        what = f'len({nm})' if fnm == '__len__' else f'{nm}.{fnm}' if hasattr_class(self.modules[mod], ty[2], fnm) \
+                            else f'what the translated methods of {nm} read as their parameter {fnm}'
+                        doc.append(f'parameter `{pname}` stands for {what}')
+            if spec.get('mutates'):
+                doc.append('updated in place, returned ' + ('in front of the result' if spec['ret'] != NONE else 'as the result')
+                           + ': ' + ', '.join(spec['mutates']))
+            for src, f in spec.get('fuel', {}).items():
+                doc.append(f'`while {src}` runs on the declared fuel `{f}` (fuelExhausted if that does not suffice)')
             text = '/-- ' + '; '.join(doc) + ' -/\n' + f'def {lean} {sig} : {rty} :=\n{ind(term)}'
             pyobj = None
             if len(spec['path']) == 1:
                 pyobj = getattr(self.modules[mod], name, None)
-            self.registry[name] = dict(name=name, lean=lean, params=list(spec['params'].items()), ret=spec['ret'], monadic=monadic,
-                                       defaults=literal_defaults(fn), pyobj=pyobj,
-                                       extra=list(spec.get('closure', {})) + [nm for nm, _ in spec.get('opaque', {}).values()])
+            self.registry[name] = dict(name=name, lean=lean, params=list(spec['params'].items()), ret=tr.ret_ty, py_ret=spec['ret'],
+                                       monadic=monadic, defaults=literal_defaults(fn), pyobj=pyobj,
+                                       closure=list(spec.get('closure', {}).items()), opaque=list(spec.get('opaque', {}).values()),
+                                       mutates=list(spec.get('mutates', [])), method=bool(spec.get('method')),
+                                       ret_byte=bool(getattr(tr, 'ret_byte', False)) and not spec.get('legacy'),
+                                       nested_in=(mod, tuple(spec['path'][:-1])) if len(spec['path']) > 1 and not spec.get('method') else None)
+            if spec.get('method'):
+                self.registry[name]['class'] = spec['path'][0]
             self.defs.append((name, text))
             self.report.append((name, 'ok'))
+            nchk = len(self.checks)
             try:
-                self.add_check(spec, params, monadic)
+                self.add_check(spec, params, monadic, tr.ret_ty)
             except Untranslatable as ex:
                 self.checks.append(f'example : Unit := unvalidated_{name} -- {str(ex)[:200]}')
                 self.report[-1] = (name, 'translated, but the validation failed: ' + str(ex))
+            self.part_of_check += [part] * (len(self.checks) - nchk)
         except Untranslatable as ex:
             sig = ''
             self.defs.append((name, f'/-- {doc[0]}: OUTSIDE THE TRANSLATABLE SUBSET -/\n'
                                     f'def {lean} : Unit :=\n  untranslatable_{name} -- {str(ex)[:200]}'))
             self.report.append((name, str(ex)))
+        for t in self.tables.order[ntab:]:
+            self.part_of_table[t] = part
 
     # ---------------------------------------------------------------- translation validation
-    def add_check(self, spec, params, monadic):
+    def add_check(self, spec, params, monadic, ret_ty=None):
         """evaluate the real function on sample arguments and state the results as kernel-checked examples"""
+        ret_ty = spec['ret'] if ret_ty is None else ret_ty
         call = spec.get('pycall')
         mod = self.modules[spec['module']]
+        mutates = list(spec.get('mutates', []))
         if call is None:
             f = getattr(mod, spec['name'])
 
             def call(a, f=f):
                 return f(**a)
-        all_params = list(spec.get('closure', {}).items()) + list(spec['params'].items()) \
-            + [(nm, ty) for nm, ty in spec.get('opaque', {}).values()]
+        all_params = []
+        for nm, ty in list(spec.get('closure', {}).items()) + list(spec['params'].items()):
+            if isinstance(ty, tuple) and ty[0] == 'obj':
+                all_params += [('n_' + nm if fnm == '__len__' else fnm, fty) for fnm, fty in ty[1]]
+            else:
+                all_params.append((nm, ty))
+        all_params += [(nm, ty) for nm, ty in spec.get('opaque', {}).values()]
         pools = []
         for nm, ty in all_params:
             if nm in spec.get('samples', {}):
@@ -1397,58 +2804,118 @@ class Translation:
         else:
             combos = [tuple(rnd.choice(p) for p in pools) for _ in range(limit)]
             combos = list({repr(c): c for c in combos}.values())
+        combos = list(spec.get('cases', [])) + combos
         lhs, rhs = [], []
         lean = lean_name(spec['name'])
+        ptypes = dict(all_params)
         for combo in combos:
-            kwargs = {nm: v for (nm, ty), v in zip(all_params, combo)}
+            kwargs = {nm: to_python(v, ty, mod) for (nm, ty), v in zip(all_params, combo)}
             if spec.get('precondition') and not spec['precondition'](kwargs):
                 continue
             try:
-                r = call(dict(kwargs))
-                res = self.tables.literal(r, spec['ret'])
+                r = call(kwargs if spec.get('pycall') else dict(kwargs))
+                if mutates:
+                    r = tuple(kwargs[m] for m in mutates) + (() if spec['ret'] == NONE else (r,))
+                    r = r[0] if len(r) == 1 else r
+                res = self.tables.literal(from_python(r), ret_ty)
                 res = ok(res) if monadic else res
             except Untranslatable:
                 raise
             except Exception as ex:  # noqa
                 cls = type(ex).__name__
                 if cls not in EXC or not monadic:
-                    raise Untranslatable(f'{spec["name"]}({kwargs}) raised {cls}, which the translation cannot produce')
+                    raise Untranslatable(f'{spec["name"]}({str(kwargs)[:300]}) raised {cls}, which the translation cannot produce')
                 res = err(EXC[cls])
             args = [self.tables.literal(v, ty) for (nm, ty), v in zip(all_params, combo) if not isinstance(ty, CONST)]
             lhs.append('(' + ' '.join([lean] + args) + ')' if args else lean)
             rhs.append(res)
-        rty = lean_ty(spec['ret'])
+        rty = lean_ty(ret_ty)
         rty = f'M {rty}' if monadic else rty
-        for k in range(0, len(lhs), 24):
-            self.checks.append(f'example : ([{", ".join(lhs[k:k + 24])}] : List ({rty}))\n    = [{", ".join(rhs[k:k + 24])}] := by decide')
+        group = spec.get('group', 24)
+        for k in range(0, len(lhs), group):
+            self.checks.append(f'example : ([{", ".join(lhs[k:k + group])}] : List ({rty}))\n    = [{", ".join(rhs[k:k + group])}] := by '
+                               + spec.get('decide', 'decide'))
         self.report[-1] = (spec['name'], f'ok ({len(lhs)} sample evaluations)')
 
     # ---------------------------------------------------------------- output
-    def funcs_text(self):
+    def funcs_text(self, part=1):
+        imp, ns = ('Gen.Py', 'Gen.Funcs') if part == 1 else ('Gen.Py2\nimport Gen.Funcs', 'Gen.Funcs2')
         out = ['-- GENERATED by tools/gen.py (tools/pytolean.py: AST translation of the repository working tree). DO NOT EDIT.',
-               'import Gen.Py', '', 'set_option linter.unusedVariables false', '', 'namespace Gen.Funcs', 'open Gen.Py', '']
+               f'import {imp}', '', 'set_option linter.unusedVariables false', '', f'namespace {ns}',
+               'open Gen.Py' + (' Gen.Funcs' if part == 2 else ''), '']
         for nm in self.tables.order:
-            out += [self.tables.defs[nm][1], '']
+            if self.part_of_table.get(nm, 1) == part:
+                out += [self.tables.defs[nm][1], '']
         for nm, text in self.defs:
-            out += [text, '']
-        out += ['end Gen.Funcs', '']
+            if self.part_of_def.get(nm, 1) == part:
+                out += [text, '']
+        out += [f'end {ns}', '']
         return '\n'.join(out)
 
-    def check_text(self):
-        out = ['-- GENERATED by tools/gen.py (tools/pytolean.py). DO NOT EDIT.',
-               '-- Translation validation: what the real Python functions returned at generation time on sample arguments,',
-               '-- compared by the Lean kernel with what the translated functions compute.',
-               'import Gen.Funcs', '', 'namespace Gen.FuncsCheck', 'open Gen.Py Gen.Funcs', '']
-        for c in self.checks:
+    def check_text(self, part=1, shard=None, shards=1):
+        """the validation examples of `part`; with `shards` > 1 they are spread over several files (built in parallel):
+        shard k gets the k-th share, `shard=None` is the root file importing the shares"""
+        imp, ns, op = ('Gen.Funcs', 'Gen.FuncsCheck', 'Gen.Py Gen.Funcs') if part == 1 else \
+            ('Gen.Funcs2', 'Gen.Funcs2Check', 'Gen.Py Gen.Funcs Gen.Funcs2')
+        head = ['-- GENERATED by tools/gen.py (tools/pytolean.py). DO NOT EDIT.',
+                '-- Translation validation: what the real Python functions returned at generation time on sample arguments,',
+                '-- compared by the Lean kernel with what the translated functions compute.']
+        mine = [c for c, pt in zip(self.checks, self.part_of_check + [1] * len(self.checks)) if pt == part]
+        if shards > 1 and shard is None:
+            return '\n'.join(head + [f'import {ns}{k + 1}' for k in range(shards)] + [''])
+        if shards > 1:
+            load = [0] * shards
+            share = [[] for _ in range(shards)]
+            for c in sorted(mine, key=len, reverse=True):      # greedy balancing by size
+                k = load.index(min(load))
+                share[k].append(c)
+                load[k] += len(c)
+            mine = [c for c in mine if c in share[shard]]
+            ns = f'{ns}{shard + 1}'
+        out = head + [f'import {imp}', '', f'namespace {ns}', f'open {op}', '']
+        for c in mine:
             out += [c, '']
-        out += ['end Gen.FuncsCheck', '']
+        out += [f'end {ns}', '']
         return '\n'.join(out)
+
+
+def hasattr_class(module, cls, attr):
+    c = getattr(module, cls, None)
+    return c is not None and (attr in getattr(c, '__slots__', ()) or hasattr(c, attr))
+
+
+def to_python(v, ty, module):
+    """a sample value as the Python object the real function expects (fresh, because it may be updated in place)"""
+    if ty == BUFFER:
+        return module.Buffer(v)
+    if ty == BYTEARRAY:
+        return bytearray(v)
+    if isinstance(ty, tuple) and ty[0] == 'list' and (is_seq(ty[1]) or isinstance(ty[1], NamedTupleType)):
+        return [to_python(x, ty[1], module) for x in v]
+    if isinstance(ty, NamedTupleType):
+        import collections
+        return collections.namedtuple('NT', ty.fields)(*v)
+    if isinstance(ty, tuple) and ty[0] == 'list':
+        return list(v)
+    return v
+
+
+def from_python(r):
+    if hasattr(r, 'getbits'):
+        return list(r.getbits())
+    if isinstance(r, (bytes, bytearray)):
+        return list(r)
+    if isinstance(r, list):
+        return [from_python(x) for x in r]
+    if isinstance(r, tuple):
+        return tuple(from_python(x) for x in r)
+    return r
 
 
 def describe(ty):
     if isinstance(ty, CONST):
         return f'fixed to {ty.value!r}'
-    if ty in (INT, BOOL, STR):
+    if ty in (INT, BOOL, STR, FLOAT):
         return ty
     if ty == NONE:
         return 'None'
@@ -1460,6 +2927,14 @@ def describe(ty):
         return f'list of {describe(ty[1])}'
     if ty[0] == 'union':
         return f'{describe(ty[1])} or {describe(ty[2])}'
+    if ty == BYTEARRAY:
+        return 'bytes / bytearray'
+    if ty == BUFFER:
+        return 'Buffer (of bits)'
+    if ty[0] == 'raises':
+        return f'{describe(ty[1])} or an exception'
+    if ty[0] == 'obj':
+        return f'{ty[2]} object'
     return str(ty)
 
 
@@ -1480,6 +2955,10 @@ def sample_pool(ty):
         pools = [sample_pool(t) for t in ty[1:]]
         rnd = random.Random(7)
         return [tuple(rnd.choice(p) for p in pools) for _ in range(24)] + [(21, 21), (17, 17), (11, 11), (18, 18), (177, 177), (21, 22)][:6 if len(pools) == 2 else 0]
+    if ty in (BYTEARRAY, BUFFER):
+        rnd = random.Random(13)
+        top = 1 if ty == BUFFER else 255
+        return [[]] + [[rnd.randint(0, top) for _ in range(rnd.randint(1, 12))] for _ in range(10)]
     if ty[0] == 'list':
         rnd = random.Random(11)
         inner = sample_pool(ty[1])
@@ -1595,8 +3074,159 @@ def segno_specs(mods, trees):
         dict(module='writers', path=['_alpha_value'], params={'color': INT, 'alpha_float': CONST(False)}, ret=INT),
     ]
     for s in specs:
+        s['legacy'] = True      # round 1: translated exactly as in round 1 (Props.TieA quotes these terms)
+    specs += segno_specs2(mods, trees, versions, levels)
+    for s in specs:
         s['name'] = s['path'][-1]
     return specs
+
+
+def segno_specs2(mods, trees, versions, levels):
+    """round 2 (Gen/Funcs2.lean): the functions at the heart of C04 / C05 / C13 (version search, error level boost,
+    terminator and padding), C06 (mask scores), C02 (function patterns)"""
+    import types
+    enc, consts = mods['encoder'], mods['consts']
+
+    class FakeSegments:
+        """a Segments object with the given `modes`, `bit_length`, number of ECI indicators and length"""
+        bit_length_with_overhead = enc.Segments.bit_length_with_overhead
+
+        def __init__(self, a):
+            self.modes, self.bit_length, self.n = a['modes'], a['bit_length'], a.get('n_segments', len(a['modes']))
+            self.segments = [types.SimpleNamespace(mode=consts.MODE_BYTE, encoding='x-other')] * a['no_eci_indicators']
+
+        def __len__(self):
+            return self.n
+    seg_fields = dict(no_eci_indicators=INT, modes=LIST(INT), bit_length=INT)
+    seg_samples = {'no_eci_indicators': [0, 1, 2], 'bit_length': [0, 1, 13, 20, 41, 128, 152, 1000, 2953 * 8, 23648, 30000],
+                   'modes': [[], [1], [2], [4], [8], [13], [1, 2, 4], [4, 4, 13, 8], [3], [1, 13, 13], [1, 1], [2, 1]]}
+    mode_lists = seg_samples['modes']
+    bufs = [[], [1], [0, 1, 0, 0], [1, 0, 1, 1, 0, 0, 1, 0], [0] * 9, [1] * 20, [1, 0] * 18, [0, 1, 1] * 8]
+    specs = [
+        dict(module='encoder', path=['find_version'],
+             params={'segments': OBJ('Segments', **seg_fields), 'error': OPT(INT), 'eci': BOOL, 'micro': OPT(BOOL), 'is_sa': BOOL},
+             ret=INT, samples=dict(seg_samples, error=levels), nsamples=72,
+             pycall=lambda a: enc.find_version(FakeSegments(a), a['error'], a['eci'], a['micro'], a['is_sa'])),
+        dict(module='encoder', path=['boost_error_level'],
+             params={'version': INT, 'error': OPT(INT), 'segments': OBJ('Segments', __len__=INT, **seg_fields), 'eci': BOOL, 'is_sa': BOOL},
+             ret=OPT(INT), samples=dict(seg_samples, error=levels, version=versions, n_segments=[0, 1, 1, 1, 2]), nsamples=120,
+             pycall=lambda a: enc.boost_error_level(a['version'], a['error'], FakeSegments(a), a['eci'], a['is_sa'])),
+        dict(module='encoder', path=['write_terminator'], params={'buff': BUFFER, 'capacity': INT, 'ver': OPT(INT), 'length': INT},
+             ret=NONE, mutates=['buff'],
+             samples={'buff': bufs, 'capacity': [0, 8, 20, 36, 152, -1], 'ver': [None, -3, -2, -1, 0, 1, -4], 'length': [0, 3, 8, 19, 20, 33, 36, 152]},
+             nsamples=72),
+        dict(module='encoder', path=['write_padding_bits'], params={'buff': BUFFER, 'version': INT, 'length': INT}, ret=NONE, mutates=['buff'],
+             samples={'buff': bufs, 'version': [-3, -2, -1, 0, 1, 40], 'length': [0, 3, 8, 19, 20, 36, -5]}, nsamples=48),
+        dict(module='encoder', path=['write_pad_codewords'], params={'buff': BUFFER, 'version': INT, 'capacity': INT, 'length': INT},
+             ret=NONE, mutates=['buff'],
+             samples={'buff': bufs, 'version': [-3, -2, -1, 0, 1, 40], 'capacity': [0, 8, 20, 36, 84, 128], 'length': [0, 3, 8, 16, 19, 20, 36]},
+             nsamples=60),
+    ]
+    MAT = LIST(BYTEARRAY)
+    rnd = random.Random(4)
+
+    def rand_matrix(n, top=1):
+        return [[rnd.randint(0, top) for _ in range(n)] for _ in range(n)]
+
+    def n3_call(a):
+        f = nested_callable(enc, trees['encoder'], ['mask_scores', 'n3_pattern_occurrences'],
+                            dict(n3_pattern=bytearray(a['n3_pattern']), qr_size=a['qr_size']))
+        return f(a['seq'])
+    m11, m13, ones11 = rand_matrix(11), rand_matrix(13), [[1] * 11 for _ in range(11)]
+    stripes15 = [[(i // 2 + j) % 2 for j in range(15)] for i in range(15)]
+    seqs = [[1, 0, 1, 1, 1, 0, 1, 0, 0, 0, 0], [0, 0, 0, 0, 1, 0, 1, 1, 1, 0, 1], [1, 0, 1, 1, 1, 0, 1, 1, 1, 0, 1, 0, 0, 0, 0],
+            [1] * 11, [0] * 11, [0, 1, 0, 1, 1, 1, 0, 1, 0, 1, 1], [1, 0, 1, 1, 1, 0, 1, 0, 1, 1, 1, 0, 1, 1, 1, 0, 1, 0, 0, 0, 0],
+            [0, 0, 1, 0, 1, 1, 1, 0, 1, 0, 0, 0, 0, 1, 0, 1, 1, 1, 0, 1, 1]]
+    specs += [
+        dict(module='encoder', path=['evaluate_micro_mask'], params={'matrix': MAT, 'width': INT, 'height': INT}, ret=INT,
+             cases=[(m11, 11, 11), (m13, 13, 13), (ones11, 11, 11), ([], 0, 0), ([[1]], 1, 1), (m11, 12, 11), (m11, 5, 5)], nsamples=0),
+        dict(module='encoder', path=['mask_scores', 'n3_pattern_occurrences'], params={'seq': BYTEARRAY},
+             closure={'n3_pattern': BYTEARRAY, 'qr_size': INT}, ret=INT, fuel={'idx != -1': 'len(seq) + 1'},
+             cases=[([1, 0, 1, 1, 1, 0, 1], len(q), q) for q in seqs] + [([1, 0, 1, 1, 1, 0, 1], 9, seqs[0]), ([1, 0, 1], 11, seqs[5])],
+             nsamples=0, pycall=n3_call),
+        dict(module='encoder', path=['mask_scores'], params={'matrix': MAT, 'width': INT, 'height': INT}, ret=TUPLE(INT, INT, INT, INT),
+             cases=[(m11, 11, 11), (m13, 13, 13), (ones11, 11, 11), (stripes15, 15, 15), (m11, 11, 12), ([[1]], 1, 1), (m11, 12, 12)],
+             nsamples=0, group=4),
+        dict(module='encoder', path=['evaluate_mask'], params={'matrix': MAT, 'width': INT, 'height': INT}, ret=INT,
+             cases=[(m11, 11, 11)], nsamples=0),
+        dict(module='encoder', path=['add_format_info'], params={'matrix': MAT, 'version': INT, 'error': OPT(INT), 'mask_pattern': INT},
+             ret=NONE, mutates=['matrix'],
+             cases=[(rand_matrix(11, 2), -3, None, 0), (rand_matrix(17, 2), 0, 3, 2), (rand_matrix(21, 2), 1, 1, 3), (rand_matrix(21, 2), 1, 0, 7),
+                    (rand_matrix(5), 1, 1, 0), ([], 1, 1, 0), (rand_matrix(9), 1, 1, 8), (rand_matrix(9), -2, 1, 4), (rand_matrix(9), -3, 1, 0)],
+             nsamples=0, group=5),
+        dict(module='encoder', path=['add_version_info'], params={'matrix': MAT, 'version': INT}, ret=NONE, mutates=['matrix'],
+             cases=[(rand_matrix(13, 2), 7), (rand_matrix(11, 2), 1), (rand_matrix(13, 2), 40), (rand_matrix(10, 2), 7), (rand_matrix(11, 2), 41),
+                    (rand_matrix(11, 2), -3)], nsamples=0, group=6),
+        dict(module='encoder', path=['add_finder_patterns'], params={'matrix': MAT, 'width': INT, 'height': INT}, ret=NONE, mutates=['matrix'],
+             cases=[(rand_matrix(11, 2), 11, 11), (rand_matrix(21, 2), 21, 21), (rand_matrix(19, 2), 19, 22), (rand_matrix(7, 2), 7, 7), ([], 0, 0)],
+             nsamples=0, group=5),
+        dict(module='encoder', path=['add_timing_pattern'], params={'matrix': MAT, 'is_micro': BOOL}, ret=NONE, mutates=['matrix'],
+             cases=[(rand_matrix(11, 2), True), (rand_matrix(21, 2), False), (rand_matrix(17, 2), False), (rand_matrix(5, 2), False), ([], True), ([], False)],
+             nsamples=0, group=6),
+        dict(module='encoder', path=['add_alignment_patterns'], params={'matrix': MAT, 'width': INT, 'height': INT}, ret=NONE, mutates=['matrix'],
+             cases=[(rand_matrix(11, 2), 11, 11), (rand_matrix(21, 2), 21, 21), (rand_matrix(25, 2), 25, 25), (rand_matrix(25, 2), 25, 24),
+                    (rand_matrix(12, 2), 25, 25)], nsamples=0, group=5),
+        dict(module='encoder', path=['make_blocks'],
+             params={'ec_infos': LIST(NT(num_blocks=INT, num_total=INT, num_data=INT)), 'buff': BUFFER},
+             ret=TUPLE(LIST(BYTEARRAY), LIST(BYTEARRAY)),
+             cases=[([(1, 5, 3)], [0, 1, 0, 0, 0, 0, 0, 1, 1, 0, 1, 0, 1, 1, 1, 1, 0, 0, 1, 0]),
+                    ([(1, 10, 5)], [rnd.randint(0, 1) for _ in range(40)]),
+                    ([(1, 26, 9)], [rnd.randint(0, 1) for _ in range(72)]),
+                    ([(2, 13, 6), (1, 14, 7)], [rnd.randint(0, 1) for _ in range(19 * 8)]),
+                    ([(1, 9, 4)], [1] * 32), ([(1, 5, 3)], []), ([], [1, 0, 1]), ([(1, 3, 5)], [1] * 40), ([(0, 9, 4)], [1] * 8)],
+             nsamples=0, group=3),
+        dict(module='encoder', path=['make_final_message', 'to_binary'], params={'val': INT, 'length': INT}, ret=LIST(INT),
+             samples={'val': [0, 1, 5, 10, 200, 255, 256, -3], 'length': [-1, 0, 1, 4, 8]},
+             pycall=lambda a: list(nested_callable(enc, trees['encoder'], ['make_final_message', 'to_binary'], {})(a['val'], a['length']))),
+        dict(module='encoder', path=['make_final_message'], params={'version': INT, 'error': OPT(INT), 'buff': BUFFER}, ret=BUFFER,
+             cases=[(-3, None, [rnd.randint(0, 1) for _ in range(20)]), (-2, 1, [rnd.randint(0, 1) for _ in range(40)]),
+                    (-1, 0, [rnd.randint(0, 1) for _ in range(68)]), (1, 2, [rnd.randint(0, 1) for _ in range(72)]),
+                    (2, 1, [rnd.randint(0, 1) for _ in range(272)]), (3, 3, [rnd.randint(0, 1) for _ in range(272)]),
+                    (1, None, [1] * 8), (41, 1, [1] * 8), (-3, None, []), (-1, 1, [1, 0, 1])],
+             nsamples=0, group=3),
+        dict(module='encoder', path=['calc_structured_append_parity'], params={'content': STR}, ret=INT,
+             opaque={"content.encode('iso-8859-1')": ('latin1', RAISES(BYTEARRAY)), "content.encode('shift-jis')": ('sjis', RAISES(BYTEARRAY)),
+                     "content.encode('utf-8')": ('utf8', RAISES(BYTEARRAY))},
+             samples={'content': ['x'], 'latin1': [[1, 2, 7], [], ('raise', 'UnicodeError'), [255]],
+                      'sjis': [[0x81, 0x40], ('raise', 'UnicodeError'), ('raise', 'LookupError'), []],
+                      'utf8': [[0xe2, 0x82, 0xac], [], ('raise', 'UnicodeError')]},
+             pycall=lambda a: parity_with(enc, a)),
+        dict(module='encoder', path=['is_kanji'], params={'data': BYTEARRAY}, ret=BOOL,
+             samples={'data': [[], [0x81], [0x81, 0x40], [0x81, 0x7f], [0x9f, 0xfc, 0xe0, 0x40], [0xeb, 0xbf], [0xeb, 0xc0], [0xa0, 0x40],
+                               [0x81, 0x40, 0x30], [0x30, 0x31], [0x81, 0x3f], [0xe0, 0x40, 0xeb, 0xbf, 0x93, 0x5f]]}),
+        dict(module='encoder', path=['find_mode'], params={'data': BYTEARRAY}, ret=INT,
+             opaque={'is_alphanumeric(data)': ('is_alnum', BOOL)},
+             samples={'data': [[], [0x31], [0x31, 0x32, 0x33], [0x41, 0x42], [0x81, 0x40], [0x61], [0x81, 0x40, 0x30], [0x39, 0x3a]],
+                      'is_alnum': [False, True]},
+             pycall=lambda a: find_mode_with(enc, a)),
+    ]
+    for s in specs:
+        s['part'] = 2
+        s.setdefault('decide', 'decide +kernel')
+    return specs
+
+
+def parity_with(enc, a):
+    """`calc_structured_append_parity(content)` with the three `content.encode(…)` reads replaced by the given outcomes"""
+    outcomes = {'iso-8859-1': a['latin1'], 'shift-jis': a['sjis'], 'utf-8': a['utf8']}
+
+    class S(str):
+        def encode(self, encoding='utf-8', errors='strict'):
+            r = outcomes[encoding]
+            if isinstance(r, tuple) and r[0] == 'raise':
+                raise {'UnicodeError': UnicodeError, 'LookupError': LookupError}[r[1]]('x')
+            return bytes(r)
+    return enc.calc_structured_append_parity(S(a['content']))
+
+
+def find_mode_with(enc, a):
+    """`find_mode(data)` with `is_alphanumeric(data)` replaced by the given truth value (the opaque read of the spec)"""
+    import unittest.mock
+    with unittest.mock.patch.object(enc, 'is_alphanumeric', lambda data: a['is_alnum']):
+        return enc.find_mode(bytes(a['data']))
+
+
+CHECK_SHARDS = 4      # Gen/Funcs2Check1.lean … : the validation examples of round 2, built in parallel
 
 
 def generate(repo, leandir, write_if_changed, modules):
@@ -1615,7 +3245,13 @@ def generate(repo, leandir, write_if_changed, modules):
         tr.add(spec)
     here = os.path.dirname(os.path.abspath(__file__))
     prelude = open(os.path.join(here, 'py_prelude.lean')).read()
+    prelude2 = open(os.path.join(here, 'py_prelude2.lean')).read()
     changed = [write_if_changed(os.path.join(leandir, 'Gen', 'Py.lean'), prelude),
-               write_if_changed(os.path.join(leandir, 'Gen', 'Funcs.lean'), tr.funcs_text()),
-               write_if_changed(os.path.join(leandir, 'Gen', 'FuncsCheck.lean'), tr.check_text())]
+               write_if_changed(os.path.join(leandir, 'Gen', 'Py2.lean'), prelude2),
+               write_if_changed(os.path.join(leandir, 'Gen', 'Funcs.lean'), tr.funcs_text(1)),
+               write_if_changed(os.path.join(leandir, 'Gen', 'FuncsCheck.lean'), tr.check_text(1)),
+               write_if_changed(os.path.join(leandir, 'Gen', 'Funcs2.lean'), tr.funcs_text(2)),
+               write_if_changed(os.path.join(leandir, 'Gen', 'Funcs2Check.lean'), tr.check_text(2, None, CHECK_SHARDS))]
+    for k in range(CHECK_SHARDS):
+        changed.append(write_if_changed(os.path.join(leandir, 'Gen', f'Funcs2Check{k + 1}.lean'), tr.check_text(2, k, CHECK_SHARDS)))
     return changed, tr.report
